@@ -4,6 +4,7 @@
   correspondence check ties to `lumicks/pylake/fitting` on every run.
 -/
 import Verif.Lemmas.C13
+import Verif.Lemmas.C13b
 
 namespace Verif.C13
 open Verif RealLike
@@ -676,6 +677,437 @@ example : (0:ℝ) < cubDet (0:ℝ) 3 0 ∧ regularised (0:ℝ) 3 0 = false := by
   simp only [regularised, hd, hq, hlt, if_true, hs, ha', ha'', hc, RealLike.sq, mul_one, ha, hbig, Bool.or_self]
 
 
+
+/-! ## Deepening round D: the trigonometric branch (`det < 0`, `calc_triple_root`) and the full statement -/
+
+/-- `det < 0` (three distinct real roots; `calc_cubic_root` uses the trigonometric form, `calc_cubic_root_derivatives`
+    goes through `calc_triple_root`): for each of the three roots `k` the code's chain rule through
+    `arcsin`/`sin`/`cos` EQUALS `(−y²/P'(y), −y/P'(y), −1/P'(y))` at the root the code returns.  No band hypothesis:
+    `det < 0` already gives `|F| < 1` (`trig_band_free`). -/
+theorem trig_chain_eq_implicit (a b c : ℝ) (k : Nat) (hdet : cubDet a b c < 0) :
+    calcCubicRootDerivs a b c k = implicitDerivs a b (calcCubicRoot a b c k) :=
+  (trig_root_all a b c k hdet).1
+
+example : cubDet (0:ℝ) (-3) 0 < 0 := by simp only [cubDet, cubP, cubQ]; norm_num
+
+/-- for `det < 0` the band predicate is false: `|F| < 1` is implied, nothing is excluded on this branch -/
+theorem trig_band_free (a b c : ℝ) (hdet : cubDet a b c < 0) : regularised a b c = false := by
+  obtain ⟨_, hlt, _, hF⟩ := trig_facts a b c hdet
+  have : RealLike.lt (RealLike.abs (trigArg (cubP a b) (cubQ a b c))) (1.0:ℝ) = true := by
+    show decide (|trigArg (cubP a b) (cubQ a b c)| < (1.0:ℝ)) = true
+    rw [decide_eq_true_eq]; norm_num; exact hF
+  simp only [regularised, hlt, Bool.false_eq_true, if_false, this, Bool.not_true]
+
+/-- the root `calc_cubic_root` returns for `det < 0` IS a root of `y³ + a y² + b y + c`, and a simple one -/
+theorem trig_root_is_simple_root (a b c : ℝ) (k : Nat) (hdet : cubDet a b c < 0) :
+    cubicPoly a b c (calcCubicRoot a b c k) = 0 ∧ cubicPoly' a b (calcCubicRoot a b c k) ≠ 0 :=
+  (trig_root_all a b c k hdet).2
+
+/-- `cardano_chain_eq_implicit` (DESIGN ext item), FULL: on both branches, off the regularised band, the triple
+    `calc_cubic_root_derivatives(a, b, c, k)` is the implicit-function triple at `calc_cubic_root(a, b, c, k)`.
+    `det ≠ 0` is needed only because the band predicate is read at `ℝ` with `x/0 = 0`: at `det = 0` the band
+    contains everything (`|F| = 1`) except the triple root `p = q = 0`, where `F = 0/0` is NaN (in the band) for
+    the executing `Float` model and `0` for `ℝ` — `det_ne_zero_necessary` is the witness. -/
+theorem cardano_chain_eq_implicit (a b c : ℝ) (k : Nat) (hdet : cubDet a b c ≠ 0)
+    (hreg : regularised a b c = false) :
+    calcCubicRootDerivs a b c k = implicitDerivs a b (calcCubicRoot a b c k) := by
+  rcases lt_or_gt_of_ne hdet with h | h
+  · exact (trig_root_all a b c k h).1
+  · exact cardano_chain_eq_implicit_aux a b c k h hreg
+
+example : cubDet (0:ℝ) (-3) 0 ≠ 0 ∧ regularised (0:ℝ) (-3) 0 = false :=
+  have h : cubDet (0:ℝ) (-3) 0 < 0 := by simp only [cubDet, cubP, cubQ]; norm_num
+  ⟨h.ne, trig_band_free _ _ _ h⟩
+
+/-- the hypothesis `det ≠ 0` of `cardano_chain_eq_implicit` cannot be dropped (triple root `y³ = 0`) -/
+theorem det_ne_zero_necessary :
+    cubDet (0:ℝ) 0 0 = 0 ∧ regularised (0:ℝ) 0 0 = false ∧
+    calcCubicRootDerivs (0:ℝ) 0 0 0 ≠ implicitDerivs 0 0 (calcCubicRoot (0:ℝ) 0 0 0) := by
+  have hp : cubP (0:ℝ) 0 = 0 := by simp only [cubP]; norm_num
+  have hq : cubQ (0:ℝ) 0 0 = 0 := by simp only [cubQ]; norm_num
+  have hd : cubDet (0:ℝ) 0 0 = 0 := by simp only [cubDet, hp, hq]; norm_num
+  have hlt : RealLike.lt (0.0:ℝ) (0:ℝ) = false := by
+    show decide ((0.0:ℝ) < 0) = false
+    rw [decide_eq_false_iff_not]; norm_num
+  have hle : RealLike.le (0.0:ℝ) (0:ℝ) = true := by
+    show decide ((0.0:ℝ) ≤ 0) = true
+    rw [decide_eq_true_eq]; norm_num
+  have hF : trigArg (0:ℝ) 0 = 0 := by simp only [trigArg]; norm_num
+  have habs : RealLike.lt (RealLike.abs (0:ℝ)) (1.0:ℝ) = true := by
+    show decide (|(0:ℝ)| < 1.0) = true
+    rw [decide_eq_true_eq]; norm_num
+  refine ⟨hd, ?_, ?_⟩
+  · simp only [regularised, hd, hp, hq, hlt, hF, habs, Bool.false_eq_true, if_false, Bool.not_true]
+  · intro h
+    have h1 := congrArg Prod.fst h
+    simp only [calcCubicRootDerivs, hd, hp, hq, hlt, Bool.false_eq_true, if_false, calcTripleRoot, implicitDerivs,
+      calcCubicRoot, hle, if_true, cubicPoly'_real, RealLike.sqrt] at h1
+    have hc0 : RealLike.cbrt (0:ℝ) = 0 := by
+      show Verif.Real.cbrt 0 = 0
+      unfold Verif.Real.cbrt
+      rw [if_pos le_rfl]; exact Real.zero_rpow (by norm_num)
+    norm_num at h1
+    rw [hc0] at h1
+    norm_num at h1
+
+/-- consequently the Jacobian / derivative of the four cubic models, as the code computes them, are the ones
+    assembled from the implicit-function root derivatives on BOTH branches off the band (supersedes
+    `cubic_jac_eq_implicit_cardano`) -/
+theorem cubic_jac_eq_implicit :
+    (∀ d Lp Lc St kT : ℝ, cubDet (OF.a d Lp Lc St kT) (OF.b d Lp Lc St kT) (OF.c d Lp Lc St kT) ≠ 0 →
+      regularised (OF.a d Lp Lc St kT) (OF.b d Lp Lc St kT) (OF.c d Lp Lc St kT) = false →
+      OF.jac d Lp Lc St kT = OF.jacWith (implicitDerivs (OF.a d Lp Lc St kT) (OF.b d Lp Lc St kT) (OF.val d Lp Lc St kT)) d Lp Lc St kT ∧
+      OF.der d Lp Lc St kT = OF.derWith (implicitDerivs (OF.a d Lp Lc St kT) (OF.b d Lp Lc St kT) (OF.val d Lp Lc St kT)) d Lp Lc St kT) ∧
+    (∀ f Lp Lc kT : ℝ, cubDet (WD.a f Lp Lc kT) (WD.b f Lp Lc kT) (WD.c f Lp Lc kT) ≠ 0 →
+      regularised (WD.a f Lp Lc kT) (WD.b f Lp Lc kT) (WD.c f Lp Lc kT) = false →
+      WD.jac f Lp Lc kT = WD.jacWith (implicitDerivs (WD.a f Lp Lc kT) (WD.b f Lp Lc kT) (WD.val f Lp Lc kT)) f Lp Lc kT ∧
+      WD.der f Lp Lc kT = WD.derWith (implicitDerivs (WD.a f Lp Lc kT) (WD.b f Lp Lc kT) (WD.val f Lp Lc kT)) f Lp Lc kT) ∧
+    (∀ d Lp Lc St kT : ℝ, cubDet (EF.a d Lp Lc St kT) (EF.b d Lp Lc St kT) (EF.c d Lp Lc St kT) ≠ 0 →
+      regularised (EF.a d Lp Lc St kT) (EF.b d Lp Lc St kT) (EF.c d Lp Lc St kT) = false →
+      EF.jac d Lp Lc St kT = EF.jacWith (implicitDerivs (EF.a d Lp Lc St kT) (EF.b d Lp Lc St kT) (EF.val d Lp Lc St kT)) d Lp Lc St kT ∧
+      EF.der d Lp Lc St kT = EF.derWith (implicitDerivs (EF.a d Lp Lc St kT) (EF.b d Lp Lc St kT) (EF.val d Lp Lc St kT)) d Lp Lc St kT) ∧
+    (∀ f Lp Lc St kT : ℝ, cubDet (ED.a f Lp Lc St kT) (ED.b f Lp Lc St kT) (ED.c f Lp Lc St kT) ≠ 0 →
+      regularised (ED.a f Lp Lc St kT) (ED.b f Lp Lc St kT) (ED.c f Lp Lc St kT) = false →
+      ED.jac f Lp Lc St kT = ED.jacWith (implicitDerivs (ED.a f Lp Lc St kT) (ED.b f Lp Lc St kT) (ED.val f Lp Lc St kT)) f Lp Lc St kT ∧
+      ED.der f Lp Lc St kT = ED.derWith (implicitDerivs (ED.a f Lp Lc St kT) (ED.b f Lp Lc St kT) (ED.val f Lp Lc St kT)) f Lp Lc St kT) := by
+  refine ⟨fun d Lp Lc St kT h1 h2 => ?_, fun f Lp Lc kT h1 h2 => ?_, fun d Lp Lc St kT h1 h2 => ?_,
+    fun f Lp Lc St kT h1 h2 => ?_⟩
+  · simp only [OF.jac, OF.der, OF.val, cardano_chain_eq_implicit _ _ _ 2 h1 h2, and_self]
+  · simp only [WD.jac, WD.der, WD.val, cardano_chain_eq_implicit _ _ _ 1 h1 h2, and_self]
+  · simp only [EF.jac, EF.der, EF.val, cardano_chain_eq_implicit _ _ _ 2 h1 h2, and_self]
+  · simp only [ED.jac, ED.der, ED.val, cardano_chain_eq_implicit _ _ _ 1 h1 h2, and_self]
+
+
+
+/-! ## Deepening round D: the model function of the four cubic models HAS the derivative the code computes
+
+  The hypotheses of `cubic_implicit_deriv` / `X.row_*` (a differentiable branch of simple roots exists) are
+  ESTABLISHED for the branch the code itself evaluates: off the band (`det ≠ 0`, no clamp active) the number
+  `calc_cubic_root(a, b, c, k)` is a simple root of the cubic (`trig_root_is_simple_root`,
+  `cardano_root_is_simple_root`), it depends differentiably on the coefficients (composition of `√`, `∛`,
+  `arcsin`, `sin`, `cos` away from their singular points), hence its derivative along any differentiable
+  coefficient curve is the implicit-function value — which is what `calc_cubic_root_derivatives` returns
+  (`cardano_chain_eq_implicit`). -/
+
+/-- `det > 0`: the root Cardano's formula returns is a simple root of the cubic (no band hypothesis) -/
+theorem cardano_root_is_simple_root (a b c : ℝ) (k : Nat) (hdet : 0 < cubDet a b c) :
+    cubicPoly a b c (calcCubicRoot a b c k) = 0 ∧ cubicPoly' a b (calcCubicRoot a b c k) ≠ 0 :=
+  cardano_root_simple a b c k hdet
+example : (0:ℝ) < cubDet (0:ℝ) 3 0 := by simp only [cubDet, cubP, cubQ]; norm_num
+
+/-- `calc_cubic_root` composed with differentiable coefficient maps has the derivative
+    `∂y/∂a·a' + ∂y/∂b·b' + ∂y/∂c·c'` with `(∂y/∂a, ∂y/∂b, ∂y/∂c) = calc_cubic_root_derivatives(a, b, c, k)`:
+    the code's chain rule is the TRUE derivative of the code's root, on both branches, off the band. -/
+theorem cubic_root_hasDerivAt (A B C : ℝ → ℝ) (a' b' c' t : ℝ) (k : Nat) (hA : HasDerivAt A a' t)
+    (hB : HasDerivAt B b' t) (hC : HasDerivAt C c' t) (hdet : cubDet (A t) (B t) (C t) ≠ 0)
+    (hreg : regularised (A t) (B t) (C t) = false) :
+    HasDerivAt (fun s => calcCubicRoot (A s) (B s) (C s) k)
+      ((calcCubicRootDerivs (A t) (B t) (C t) k).1 * a' + (calcCubicRootDerivs (A t) (B t) (C t) k).2.1 * b'
+        + (calcCubicRootDerivs (A t) (B t) (C t) k).2.2 * c') t := by
+  rcases lt_or_gt_of_ne hdet with h | h
+  · exact trig_root_hasDerivAt A B C a' b' c' t k hA hB hC h
+  · exact cardano_root_hasDerivAt A B C a' b' c' t k hA hB hC h hreg
+
+
+/-- non-vacuity: `y³ − 3y + t` at `t = 0` (`det = −1 < 0`) -/
+example : HasDerivAt (fun _ : ℝ => (0:ℝ)) 0 0 ∧ HasDerivAt (fun _ : ℝ => (-3:ℝ)) 0 0 ∧ HasDerivAt (fun s : ℝ => s) 1 0 ∧
+    cubDet (0:ℝ) (-3) 0 ≠ 0 ∧ regularised (0:ℝ) (-3) 0 = false :=
+  have h : cubDet (0:ℝ) (-3) 0 < 0 := by simp only [cubDet, cubP, cubQ]; norm_num
+  ⟨hasDerivAt_const _ _, hasDerivAt_const _ _, hasDerivAt_id' 0, h.ne, trig_band_free _ _ _ h⟩
+
+set_option linter.unusedSimpArgs false
+
+/-- row `Lp` of the code's Jacobian of this cubic model is the partial derivative of the model function w.r.t. `Lp` (both branches, off the regularised band) -/
+theorem OF.jac_Lp_hasDerivAt (d Lp Lc St kT : ℝ) (hLp : 0 < Lp) (hLc : 0 < Lc) (hSt : 0 < St) (hkT : 0 < kT)
+    (hdet : cubDet (OF.a d Lp Lc St kT) (OF.b d Lp Lc St kT) (OF.c d Lp Lc St kT) ≠ 0)
+    (hreg : regularised (OF.a d Lp Lc St kT) (OF.b d Lp Lc St kT) (OF.c d Lp Lc St kT) = false) :
+    HasDerivAt (fun v => OF.val d v Lc St kT) ((OF.jac d Lp Lc St kT).getD 0 0) Lp := by
+  have h := cubic_root_hasDerivAt (fun v => OF.a d v Lc St kT) (fun v => OF.b d v Lc St kT) (fun v => OF.c d v Lc St kT)
+    _ _ _ Lp 2 (OF.a_Lp d Lp Lc St kT) (OF.b_Lp d Lp Lc St kT) (OF.c_Lp d Lp Lc St kT hLp hLc hSt hkT) hdet hreg
+  refine h.congr_deriv ?_
+  simp only [OF.jac, OF.jacWith, OF.der, OF.derWith, List.getD_cons_succ, List.getD_cons_zero]
+  all_goals
+    generalize calcCubicRootDerivs (OF.a d Lp Lc St kT) (OF.b d Lp Lc St kT) (OF.c d Lp Lc St kT) 2 = r
+    obtain ⟨ya, yb, yc⟩ := r
+    first | (simp only []; done) | (simp only []; ring)
+
+/-- row `Lc` of the code's Jacobian of this cubic model is the partial derivative of the model function w.r.t. `Lc` (both branches, off the regularised band) -/
+theorem OF.jac_Lc_hasDerivAt (d Lp Lc St kT : ℝ) (hLp : 0 < Lp) (hLc : 0 < Lc) (hSt : 0 < St) (hkT : 0 < kT)
+    (hdet : cubDet (OF.a d Lp Lc St kT) (OF.b d Lp Lc St kT) (OF.c d Lp Lc St kT) ≠ 0)
+    (hreg : regularised (OF.a d Lp Lc St kT) (OF.b d Lp Lc St kT) (OF.c d Lp Lc St kT) = false) :
+    HasDerivAt (fun v => OF.val d Lp v St kT) ((OF.jac d Lp Lc St kT).getD 1 0) Lc := by
+  have h := cubic_root_hasDerivAt (fun v => OF.a d Lp v St kT) (fun v => OF.b d Lp v St kT) (fun v => OF.c d Lp v St kT)
+    _ _ _ Lc 2 (OF.a_Lc d Lp Lc St kT hLp hLc hSt hkT) (OF.b_Lc d Lp Lc St kT hLp hLc hSt hkT) (OF.c_Lc d Lp Lc St kT) hdet hreg
+  refine h.congr_deriv ?_
+  simp only [OF.jac, OF.jacWith, OF.der, OF.derWith, List.getD_cons_succ, List.getD_cons_zero]
+  all_goals
+    generalize calcCubicRootDerivs (OF.a d Lp Lc St kT) (OF.b d Lp Lc St kT) (OF.c d Lp Lc St kT) 2 = r
+    obtain ⟨ya, yb, yc⟩ := r
+    first | (simp only []; done) | (simp only []; ring)
+
+/-- row `St` of the code's Jacobian of this cubic model is the partial derivative of the model function w.r.t. `St` (both branches, off the regularised band) -/
+theorem OF.jac_St_hasDerivAt (d Lp Lc St kT : ℝ) (hLp : 0 < Lp) (hLc : 0 < Lc) (hSt : 0 < St) (hkT : 0 < kT)
+    (hdet : cubDet (OF.a d Lp Lc St kT) (OF.b d Lp Lc St kT) (OF.c d Lp Lc St kT) ≠ 0)
+    (hreg : regularised (OF.a d Lp Lc St kT) (OF.b d Lp Lc St kT) (OF.c d Lp Lc St kT) = false) :
+    HasDerivAt (fun v => OF.val d Lp Lc v kT) ((OF.jac d Lp Lc St kT).getD 2 0) St := by
+  have h := cubic_root_hasDerivAt (fun v => OF.a d Lp Lc v kT) (fun v => OF.b d Lp Lc v kT) (fun v => OF.c d Lp Lc v kT)
+    _ _ _ St 2 (OF.a_St d Lp Lc St kT hLp hLc hSt hkT) (OF.b_St d Lp Lc St kT hLp hLc hSt hkT) (OF.c_St d Lp Lc St kT hLp hLc hSt hkT) hdet hreg
+  refine h.congr_deriv ?_
+  simp only [OF.jac, OF.jacWith, OF.der, OF.derWith, List.getD_cons_succ, List.getD_cons_zero]
+  all_goals
+    generalize calcCubicRootDerivs (OF.a d Lp Lc St kT) (OF.b d Lp Lc St kT) (OF.c d Lp Lc St kT) 2 = r
+    obtain ⟨ya, yb, yc⟩ := r
+    first | (simp only []; done) | (simp only []; ring)
+
+/-- row `kT` of the code's Jacobian of this cubic model is the partial derivative of the model function w.r.t. `kT` (both branches, off the regularised band) -/
+theorem OF.jac_kT_hasDerivAt (d Lp Lc St kT : ℝ) (hLp : 0 < Lp) (hLc : 0 < Lc) (hSt : 0 < St) (hkT : 0 < kT)
+    (hdet : cubDet (OF.a d Lp Lc St kT) (OF.b d Lp Lc St kT) (OF.c d Lp Lc St kT) ≠ 0)
+    (hreg : regularised (OF.a d Lp Lc St kT) (OF.b d Lp Lc St kT) (OF.c d Lp Lc St kT) = false) :
+    HasDerivAt (fun v => OF.val d Lp Lc St v) ((OF.jac d Lp Lc St kT).getD 3 0) kT := by
+  have h := cubic_root_hasDerivAt (fun v => OF.a d Lp Lc St v) (fun v => OF.b d Lp Lc St v) (fun v => OF.c d Lp Lc St v)
+    _ _ _ kT 2 (OF.a_kT d Lp Lc St kT) (OF.b_kT d Lp Lc St kT) (OF.c_kT d Lp Lc St kT hLp hLc hSt hkT) hdet hreg
+  refine h.congr_deriv ?_
+  simp only [OF.jac, OF.jacWith, OF.der, OF.derWith, List.getD_cons_succ, List.getD_cons_zero]
+  all_goals
+    generalize calcCubicRootDerivs (OF.a d Lp Lc St kT) (OF.b d Lp Lc St kT) (OF.c d Lp Lc St kT) 2 = r
+    obtain ⟨ya, yb, yc⟩ := r
+    first | (simp only []; done) | (simp only []; ring)
+
+/-- the code's derivative of this cubic model is the derivative of the model function w.r.t. the independent variable `d` (both branches, off the regularised band) -/
+theorem OF.der_hasDerivAt (d Lp Lc St kT : ℝ) (hLp : 0 < Lp) (hLc : 0 < Lc) (hSt : 0 < St) (hkT : 0 < kT)
+    (hdet : cubDet (OF.a d Lp Lc St kT) (OF.b d Lp Lc St kT) (OF.c d Lp Lc St kT) ≠ 0)
+    (hreg : regularised (OF.a d Lp Lc St kT) (OF.b d Lp Lc St kT) (OF.c d Lp Lc St kT) = false) :
+    HasDerivAt (fun v => OF.val v Lp Lc St kT) (OF.der d Lp Lc St kT) d := by
+  have h := cubic_root_hasDerivAt (fun v => OF.a v Lp Lc St kT) (fun v => OF.b v Lp Lc St kT) (fun v => OF.c v Lp Lc St kT)
+    _ _ _ d 2 (OF.a_d d Lp Lc St kT hLp hLc hSt hkT) (OF.b_d d Lp Lc St kT hLp hLc hSt hkT) (OF.c_d d Lp Lc St kT) hdet hreg
+  refine h.congr_deriv ?_
+  simp only [OF.jac, OF.jacWith, OF.der, OF.derWith, List.getD_cons_succ, List.getD_cons_zero]
+  all_goals
+    generalize calcCubicRootDerivs (OF.a d Lp Lc St kT) (OF.b d Lp Lc St kT) (OF.c d Lp Lc St kT) 2 = r
+    obtain ⟨ya, yb, yc⟩ := r
+    first | (simp only []; done) | (simp only []; ring)
+
+/-- non-vacuity of the `OF` rows: positive parameters with `det < 0`, off the band -/
+example : cubDet (α := ℝ) (OF.a 1 (1/2) (1/2) 2 (1/2)) (OF.b 1 (1/2) (1/2) 2 (1/2)) (OF.c 1 (1/2) (1/2) 2 (1/2)) ≠ 0 ∧ regularised (α := ℝ) (OF.a 1 (1/2) (1/2) 2 (1/2)) (OF.b 1 (1/2) (1/2) 2 (1/2)) (OF.c 1 (1/2) (1/2) 2 (1/2)) = false :=
+  have h : cubDet (α := ℝ) (OF.a 1 (1/2) (1/2) 2 (1/2)) (OF.b 1 (1/2) (1/2) 2 (1/2)) (OF.c 1 (1/2) (1/2) 2 (1/2)) < 0 := by
+    simp only [OF.a, OF.b, OF.c, cubDet, cubP, cubQ, RealLike.sq, RealLike.cube]; norm_num
+  ⟨h.ne, trig_band_free _ _ _ h⟩
+
+/-- row `Lp` of the code's Jacobian of this cubic model is the partial derivative of the model function w.r.t. `Lp` (both branches, off the regularised band) -/
+theorem WD.jac_Lp_hasDerivAt (f Lp Lc kT : ℝ) (hLp : 0 < Lp) (hLc : 0 < Lc) (hkT : 0 < kT)
+    (hdet : cubDet (WD.a f Lp Lc kT) (WD.b f Lp Lc kT) (WD.c f Lp Lc kT) ≠ 0)
+    (hreg : regularised (WD.a f Lp Lc kT) (WD.b f Lp Lc kT) (WD.c f Lp Lc kT) = false) :
+    HasDerivAt (fun v => WD.val f v Lc kT) ((WD.jac f Lp Lc kT).getD 0 0) Lp := by
+  have h := cubic_root_hasDerivAt (fun v => WD.a f v Lc kT) (fun v => WD.b f v Lc kT) (fun v => WD.c f v Lc kT)
+    _ _ _ Lp 1 (WD.a_Lp f Lp Lc kT hLp hLc hkT) (WD.b_Lp f Lp Lc kT hLp hLc hkT) (WD.c_Lp f Lp Lc kT hLp hLc hkT) hdet hreg
+  refine h.congr_deriv ?_
+  simp only [WD.jac, WD.jacWith, WD.der, WD.derWith, List.getD_cons_succ, List.getD_cons_zero]
+  all_goals
+    generalize calcCubicRootDerivs (WD.a f Lp Lc kT) (WD.b f Lp Lc kT) (WD.c f Lp Lc kT) 1 = r
+    obtain ⟨ya, yb, yc⟩ := r
+    first | (simp only []; done) | (simp only []; ring)
+
+/-- row `Lc` of the code's Jacobian of this cubic model is the partial derivative of the model function w.r.t. `Lc` (both branches, off the regularised band) -/
+theorem WD.jac_Lc_hasDerivAt (f Lp Lc kT : ℝ) (hLp : 0 < Lp) (hLc : 0 < Lc) (hkT : 0 < kT)
+    (hdet : cubDet (WD.a f Lp Lc kT) (WD.b f Lp Lc kT) (WD.c f Lp Lc kT) ≠ 0)
+    (hreg : regularised (WD.a f Lp Lc kT) (WD.b f Lp Lc kT) (WD.c f Lp Lc kT) = false) :
+    HasDerivAt (fun v => WD.val f Lp v kT) ((WD.jac f Lp Lc kT).getD 1 0) Lc := by
+  have h := cubic_root_hasDerivAt (fun v => WD.a f Lp v kT) (fun v => WD.b f Lp v kT) (fun v => WD.c f Lp v kT)
+    _ _ _ Lc 1 (WD.a_Lc f Lp Lc kT hLp hLc hkT) (WD.b_Lc f Lp Lc kT hLp hLc hkT) (WD.c_Lc f Lp Lc kT hLp hLc hkT) hdet hreg
+  refine h.congr_deriv ?_
+  simp only [WD.jac, WD.jacWith, WD.der, WD.derWith, List.getD_cons_succ, List.getD_cons_zero]
+  all_goals
+    generalize calcCubicRootDerivs (WD.a f Lp Lc kT) (WD.b f Lp Lc kT) (WD.c f Lp Lc kT) 1 = r
+    obtain ⟨ya, yb, yc⟩ := r
+    first | (simp only []; done) | (simp only []; ring)
+
+/-- row `kT` of the code's Jacobian of this cubic model is the partial derivative of the model function w.r.t. `kT` (both branches, off the regularised band) -/
+theorem WD.jac_kT_hasDerivAt (f Lp Lc kT : ℝ) (hLp : 0 < Lp) (hLc : 0 < Lc) (hkT : 0 < kT)
+    (hdet : cubDet (WD.a f Lp Lc kT) (WD.b f Lp Lc kT) (WD.c f Lp Lc kT) ≠ 0)
+    (hreg : regularised (WD.a f Lp Lc kT) (WD.b f Lp Lc kT) (WD.c f Lp Lc kT) = false) :
+    HasDerivAt (fun v => WD.val f Lp Lc v) ((WD.jac f Lp Lc kT).getD 2 0) kT := by
+  have h := cubic_root_hasDerivAt (fun v => WD.a f Lp Lc v) (fun v => WD.b f Lp Lc v) (fun v => WD.c f Lp Lc v)
+    _ _ _ kT 1 (WD.a_kT f Lp Lc kT hLp hLc hkT) (WD.b_kT f Lp Lc kT hLp hLc hkT) (WD.c_kT f Lp Lc kT hLp hLc hkT) hdet hreg
+  refine h.congr_deriv ?_
+  simp only [WD.jac, WD.jacWith, WD.der, WD.derWith, List.getD_cons_succ, List.getD_cons_zero]
+  all_goals
+    generalize calcCubicRootDerivs (WD.a f Lp Lc kT) (WD.b f Lp Lc kT) (WD.c f Lp Lc kT) 1 = r
+    obtain ⟨ya, yb, yc⟩ := r
+    first | (simp only []; done) | (simp only []; ring)
+
+/-- the code's derivative of this cubic model is the derivative of the model function w.r.t. the independent variable `f` (both branches, off the regularised band) -/
+theorem WD.der_hasDerivAt (f Lp Lc kT : ℝ) (hLp : 0 < Lp) (hLc : 0 < Lc) (hkT : 0 < kT)
+    (hdet : cubDet (WD.a f Lp Lc kT) (WD.b f Lp Lc kT) (WD.c f Lp Lc kT) ≠ 0)
+    (hreg : regularised (WD.a f Lp Lc kT) (WD.b f Lp Lc kT) (WD.c f Lp Lc kT) = false) :
+    HasDerivAt (fun v => WD.val v Lp Lc kT) (WD.der f Lp Lc kT) f := by
+  have h := cubic_root_hasDerivAt (fun v => WD.a v Lp Lc kT) (fun v => WD.b v Lp Lc kT) (fun v => WD.c v Lp Lc kT)
+    _ _ _ f 1 (WD.a_f f Lp Lc kT hLp hLc hkT) (WD.b_f f Lp Lc kT hLp hLc hkT) (WD.c_f f Lp Lc kT hLp hLc hkT) hdet hreg
+  refine h.congr_deriv ?_
+  simp only [WD.jac, WD.jacWith, WD.der, WD.derWith, List.getD_cons_succ, List.getD_cons_zero]
+  all_goals
+    generalize calcCubicRootDerivs (WD.a f Lp Lc kT) (WD.b f Lp Lc kT) (WD.c f Lp Lc kT) 1 = r
+    obtain ⟨ya, yb, yc⟩ := r
+    first | (simp only []; done) | (simp only []; ring)
+
+/-- non-vacuity of the `WD` rows: positive parameters with `det < 0`, off the band -/
+example : cubDet (α := ℝ) (WD.a (1/2) 2 1 (1/2)) (WD.b (1/2) 2 1 (1/2)) (WD.c (1/2) 2 1 (1/2)) ≠ 0 ∧ regularised (α := ℝ) (WD.a (1/2) 2 1 (1/2)) (WD.b (1/2) 2 1 (1/2)) (WD.c (1/2) 2 1 (1/2)) = false :=
+  have h : cubDet (α := ℝ) (WD.a (1/2) 2 1 (1/2)) (WD.b (1/2) 2 1 (1/2)) (WD.c (1/2) 2 1 (1/2)) < 0 := by
+    simp only [WD.a, WD.b, WD.c, cubDet, cubP, cubQ, RealLike.sq, RealLike.cube]; norm_num
+  ⟨h.ne, trig_band_free _ _ _ h⟩
+
+/-- row `Lp` of the code's Jacobian of this cubic model is the partial derivative of the model function w.r.t. `Lp` (both branches, off the regularised band) -/
+theorem EF.jac_Lp_hasDerivAt (d Lp Lc St kT : ℝ) (hLp : 0 < Lp) (hLc : 0 < Lc) (hSt : 0 < St) (hkT : 0 < kT)
+    (hdet : cubDet (EF.a d Lp Lc St kT) (EF.b d Lp Lc St kT) (EF.c d Lp Lc St kT) ≠ 0)
+    (hreg : regularised (EF.a d Lp Lc St kT) (EF.b d Lp Lc St kT) (EF.c d Lp Lc St kT) = false) :
+    HasDerivAt (fun v => EF.val d v Lc St kT) ((EF.jac d Lp Lc St kT).getD 0 0) Lp := by
+  have h := cubic_root_hasDerivAt (fun v => EF.a d v Lc St kT) (fun v => EF.b d v Lc St kT) (fun v => EF.c d v Lc St kT)
+    _ _ _ Lp 2 (EF.a_Lp d Lp Lc St kT hLp hLc hSt hkT) (EF.b_Lp d Lp Lc St kT hLp hLc hSt hkT) (EF.c_Lp d Lp Lc St kT hLp hLc hSt hkT) hdet hreg
+  refine h.congr_deriv ?_
+  simp only [EF.jac, EF.jacWith, EF.der, EF.derWith, List.getD_cons_succ, List.getD_cons_zero]
+  all_goals
+    generalize calcCubicRootDerivs (EF.a d Lp Lc St kT) (EF.b d Lp Lc St kT) (EF.c d Lp Lc St kT) 2 = r
+    obtain ⟨ya, yb, yc⟩ := r
+    first | (simp only []; done) | (simp only []; ring)
+
+/-- row `Lc` of the code's Jacobian of this cubic model is the partial derivative of the model function w.r.t. `Lc` (both branches, off the regularised band) -/
+theorem EF.jac_Lc_hasDerivAt (d Lp Lc St kT : ℝ) (hLp : 0 < Lp) (hLc : 0 < Lc) (hSt : 0 < St) (hkT : 0 < kT)
+    (hdet : cubDet (EF.a d Lp Lc St kT) (EF.b d Lp Lc St kT) (EF.c d Lp Lc St kT) ≠ 0)
+    (hreg : regularised (EF.a d Lp Lc St kT) (EF.b d Lp Lc St kT) (EF.c d Lp Lc St kT) = false) :
+    HasDerivAt (fun v => EF.val d Lp v St kT) ((EF.jac d Lp Lc St kT).getD 1 0) Lc := by
+  have h := cubic_root_hasDerivAt (fun v => EF.a d Lp v St kT) (fun v => EF.b d Lp v St kT) (fun v => EF.c d Lp v St kT)
+    _ _ _ Lc 2 (EF.a_Lc d Lp Lc St kT hLp hLc hSt hkT) (EF.b_Lc d Lp Lc St kT hLp hLc hSt hkT) (EF.c_Lc d Lp Lc St kT hLp hLc hSt hkT) hdet hreg
+  refine h.congr_deriv ?_
+  simp only [EF.jac, EF.jacWith, EF.der, EF.derWith, List.getD_cons_succ, List.getD_cons_zero]
+  all_goals
+    generalize calcCubicRootDerivs (EF.a d Lp Lc St kT) (EF.b d Lp Lc St kT) (EF.c d Lp Lc St kT) 2 = r
+    obtain ⟨ya, yb, yc⟩ := r
+    first | (simp only []; done) | (simp only []; ring)
+
+/-- row `St` of the code's Jacobian of this cubic model is the partial derivative of the model function w.r.t. `St` (both branches, off the regularised band) -/
+theorem EF.jac_St_hasDerivAt (d Lp Lc St kT : ℝ) (hLp : 0 < Lp) (hLc : 0 < Lc) (hSt : 0 < St) (hkT : 0 < kT)
+    (hdet : cubDet (EF.a d Lp Lc St kT) (EF.b d Lp Lc St kT) (EF.c d Lp Lc St kT) ≠ 0)
+    (hreg : regularised (EF.a d Lp Lc St kT) (EF.b d Lp Lc St kT) (EF.c d Lp Lc St kT) = false) :
+    HasDerivAt (fun v => EF.val d Lp Lc v kT) ((EF.jac d Lp Lc St kT).getD 2 0) St := by
+  have h := cubic_root_hasDerivAt (fun v => EF.a d Lp Lc v kT) (fun v => EF.b d Lp Lc v kT) (fun v => EF.c d Lp Lc v kT)
+    _ _ _ St 2 (EF.a_St d Lp Lc St kT hLp hLc hSt hkT) (EF.b_St d Lp Lc St kT hLp hLc hSt hkT) (EF.c_St d Lp Lc St kT hLp hLc hSt hkT) hdet hreg
+  refine h.congr_deriv ?_
+  simp only [EF.jac, EF.jacWith, EF.der, EF.derWith, List.getD_cons_succ, List.getD_cons_zero]
+  all_goals
+    generalize calcCubicRootDerivs (EF.a d Lp Lc St kT) (EF.b d Lp Lc St kT) (EF.c d Lp Lc St kT) 2 = r
+    obtain ⟨ya, yb, yc⟩ := r
+    first | (simp only []; done) | (simp only []; ring)
+
+/-- row `kT` of the code's Jacobian of this cubic model is the partial derivative of the model function w.r.t. `kT` (both branches, off the regularised band) -/
+theorem EF.jac_kT_hasDerivAt (d Lp Lc St kT : ℝ) (hLp : 0 < Lp) (hLc : 0 < Lc) (hSt : 0 < St) (hkT : 0 < kT)
+    (hdet : cubDet (EF.a d Lp Lc St kT) (EF.b d Lp Lc St kT) (EF.c d Lp Lc St kT) ≠ 0)
+    (hreg : regularised (EF.a d Lp Lc St kT) (EF.b d Lp Lc St kT) (EF.c d Lp Lc St kT) = false) :
+    HasDerivAt (fun v => EF.val d Lp Lc St v) ((EF.jac d Lp Lc St kT).getD 3 0) kT := by
+  have h := cubic_root_hasDerivAt (fun v => EF.a d Lp Lc St v) (fun v => EF.b d Lp Lc St v) (fun v => EF.c d Lp Lc St v)
+    _ _ _ kT 2 (EF.a_kT d Lp Lc St kT hLp hLc hSt hkT) (EF.b_kT d Lp Lc St kT hLp hLc hSt hkT) (EF.c_kT d Lp Lc St kT hLp hLc hSt hkT) hdet hreg
+  refine h.congr_deriv ?_
+  simp only [EF.jac, EF.jacWith, EF.der, EF.derWith, List.getD_cons_succ, List.getD_cons_zero]
+  all_goals
+    generalize calcCubicRootDerivs (EF.a d Lp Lc St kT) (EF.b d Lp Lc St kT) (EF.c d Lp Lc St kT) 2 = r
+    obtain ⟨ya, yb, yc⟩ := r
+    first | (simp only []; done) | (simp only []; ring)
+
+/-- the code's derivative of this cubic model is the derivative of the model function w.r.t. the independent variable `d` (both branches, off the regularised band) -/
+theorem EF.der_hasDerivAt (d Lp Lc St kT : ℝ) (hLp : 0 < Lp) (hLc : 0 < Lc) (hSt : 0 < St) (hkT : 0 < kT)
+    (hdet : cubDet (EF.a d Lp Lc St kT) (EF.b d Lp Lc St kT) (EF.c d Lp Lc St kT) ≠ 0)
+    (hreg : regularised (EF.a d Lp Lc St kT) (EF.b d Lp Lc St kT) (EF.c d Lp Lc St kT) = false) :
+    HasDerivAt (fun v => EF.val v Lp Lc St kT) (EF.der d Lp Lc St kT) d := by
+  have h := cubic_root_hasDerivAt (fun v => EF.a v Lp Lc St kT) (fun v => EF.b v Lp Lc St kT) (fun v => EF.c v Lp Lc St kT)
+    _ _ _ d 2 (EF.a_d d Lp Lc St kT hLp hLc hSt hkT) (EF.b_d d Lp Lc St kT hLp hLc hSt hkT) (EF.c_d d Lp Lc St kT hLp hLc hSt hkT) hdet hreg
+  refine h.congr_deriv ?_
+  simp only [EF.jac, EF.jacWith, EF.der, EF.derWith, List.getD_cons_succ, List.getD_cons_zero]
+  all_goals
+    generalize calcCubicRootDerivs (EF.a d Lp Lc St kT) (EF.b d Lp Lc St kT) (EF.c d Lp Lc St kT) 2 = r
+    obtain ⟨ya, yb, yc⟩ := r
+    first | (simp only []; done) | (simp only []; ring)
+
+/-- non-vacuity of the `EF` rows: positive parameters with `det < 0`, off the band -/
+example : cubDet (α := ℝ) (EF.a 1 1 (1/2) 3 (1/2)) (EF.b 1 1 (1/2) 3 (1/2)) (EF.c 1 1 (1/2) 3 (1/2)) ≠ 0 ∧ regularised (α := ℝ) (EF.a 1 1 (1/2) 3 (1/2)) (EF.b 1 1 (1/2) 3 (1/2)) (EF.c 1 1 (1/2) 3 (1/2)) = false :=
+  have h : cubDet (α := ℝ) (EF.a 1 1 (1/2) 3 (1/2)) (EF.b 1 1 (1/2) 3 (1/2)) (EF.c 1 1 (1/2) 3 (1/2)) < 0 := by
+    simp only [EF.a, EF.b, EF.c, cubDet, cubP, cubQ, RealLike.sq, RealLike.cube]; norm_num
+  ⟨h.ne, trig_band_free _ _ _ h⟩
+
+/-- row `Lp` of the code's Jacobian of this cubic model is the partial derivative of the model function w.r.t. `Lp` (both branches, off the regularised band) -/
+theorem ED.jac_Lp_hasDerivAt (f Lp Lc St kT : ℝ) (hLp : 0 < Lp) (hLc : 0 < Lc) (hSt : 0 < St) (hkT : 0 < kT)
+    (hdet : cubDet (ED.a f Lp Lc St kT) (ED.b f Lp Lc St kT) (ED.c f Lp Lc St kT) ≠ 0)
+    (hreg : regularised (ED.a f Lp Lc St kT) (ED.b f Lp Lc St kT) (ED.c f Lp Lc St kT) = false) :
+    HasDerivAt (fun v => ED.val f v Lc St kT) ((ED.jac f Lp Lc St kT).getD 0 0) Lp := by
+  have h := cubic_root_hasDerivAt (fun v => ED.a f v Lc St kT) (fun v => ED.b f v Lc St kT) (fun v => ED.c f v Lc St kT)
+    _ _ _ Lp 1 (ED.a_Lp f Lp Lc St kT hLp hLc hSt hkT) (ED.b_Lp f Lp Lc St kT hLp hLc hSt hkT) (ED.c_Lp f Lp Lc St kT hLp hLc hSt hkT) hdet hreg
+  refine h.congr_deriv ?_
+  simp only [ED.jac, ED.jacWith, ED.der, ED.derWith, List.getD_cons_succ, List.getD_cons_zero]
+  all_goals
+    generalize calcCubicRootDerivs (ED.a f Lp Lc St kT) (ED.b f Lp Lc St kT) (ED.c f Lp Lc St kT) 1 = r
+    obtain ⟨ya, yb, yc⟩ := r
+    first | (simp only []; done) | (simp only []; ring)
+
+/-- row `Lc` of the code's Jacobian of this cubic model is the partial derivative of the model function w.r.t. `Lc` (both branches, off the regularised band) -/
+theorem ED.jac_Lc_hasDerivAt (f Lp Lc St kT : ℝ) (hLp : 0 < Lp) (hLc : 0 < Lc) (hSt : 0 < St) (hkT : 0 < kT)
+    (hdet : cubDet (ED.a f Lp Lc St kT) (ED.b f Lp Lc St kT) (ED.c f Lp Lc St kT) ≠ 0)
+    (hreg : regularised (ED.a f Lp Lc St kT) (ED.b f Lp Lc St kT) (ED.c f Lp Lc St kT) = false) :
+    HasDerivAt (fun v => ED.val f Lp v St kT) ((ED.jac f Lp Lc St kT).getD 1 0) Lc := by
+  have h := cubic_root_hasDerivAt (fun v => ED.a f Lp v St kT) (fun v => ED.b f Lp v St kT) (fun v => ED.c f Lp v St kT)
+    _ _ _ Lc 1 (ED.a_Lc f Lp Lc St kT hLp hLc hSt hkT) (ED.b_Lc f Lp Lc St kT hLp hLc hSt hkT) (ED.c_Lc f Lp Lc St kT hLp hLc hSt hkT) hdet hreg
+  refine h.congr_deriv ?_
+  simp only [ED.jac, ED.jacWith, ED.der, ED.derWith, List.getD_cons_succ, List.getD_cons_zero]
+  all_goals
+    generalize calcCubicRootDerivs (ED.a f Lp Lc St kT) (ED.b f Lp Lc St kT) (ED.c f Lp Lc St kT) 1 = r
+    obtain ⟨ya, yb, yc⟩ := r
+    first | (simp only []; done) | (simp only []; ring)
+
+/-- row `St` of the code's Jacobian of this cubic model is the partial derivative of the model function w.r.t. `St` (both branches, off the regularised band) -/
+theorem ED.jac_St_hasDerivAt (f Lp Lc St kT : ℝ) (hLp : 0 < Lp) (hLc : 0 < Lc) (hSt : 0 < St) (hkT : 0 < kT)
+    (hdet : cubDet (ED.a f Lp Lc St kT) (ED.b f Lp Lc St kT) (ED.c f Lp Lc St kT) ≠ 0)
+    (hreg : regularised (ED.a f Lp Lc St kT) (ED.b f Lp Lc St kT) (ED.c f Lp Lc St kT) = false) :
+    HasDerivAt (fun v => ED.val f Lp Lc v kT) ((ED.jac f Lp Lc St kT).getD 2 0) St := by
+  have h := cubic_root_hasDerivAt (fun v => ED.a f Lp Lc v kT) (fun v => ED.b f Lp Lc v kT) (fun v => ED.c f Lp Lc v kT)
+    _ _ _ St 1 (ED.a_St f Lp Lc St kT hLp hLc hSt hkT) (ED.b_St f Lp Lc St kT hLp hLc hSt hkT) (ED.c_St f Lp Lc St kT hLp hLc hSt hkT) hdet hreg
+  refine h.congr_deriv ?_
+  simp only [ED.jac, ED.jacWith, ED.der, ED.derWith, List.getD_cons_succ, List.getD_cons_zero]
+  all_goals
+    generalize calcCubicRootDerivs (ED.a f Lp Lc St kT) (ED.b f Lp Lc St kT) (ED.c f Lp Lc St kT) 1 = r
+    obtain ⟨ya, yb, yc⟩ := r
+    first | (simp only []; done) | (simp only []; ring)
+
+/-- row `kT` of the code's Jacobian of this cubic model is the partial derivative of the model function w.r.t. `kT` (both branches, off the regularised band) -/
+theorem ED.jac_kT_hasDerivAt (f Lp Lc St kT : ℝ) (hLp : 0 < Lp) (hLc : 0 < Lc) (hSt : 0 < St) (hkT : 0 < kT)
+    (hdet : cubDet (ED.a f Lp Lc St kT) (ED.b f Lp Lc St kT) (ED.c f Lp Lc St kT) ≠ 0)
+    (hreg : regularised (ED.a f Lp Lc St kT) (ED.b f Lp Lc St kT) (ED.c f Lp Lc St kT) = false) :
+    HasDerivAt (fun v => ED.val f Lp Lc St v) ((ED.jac f Lp Lc St kT).getD 3 0) kT := by
+  have h := cubic_root_hasDerivAt (fun v => ED.a f Lp Lc St v) (fun v => ED.b f Lp Lc St v) (fun v => ED.c f Lp Lc St v)
+    _ _ _ kT 1 (ED.a_kT f Lp Lc St kT hLp hLc hSt hkT) (ED.b_kT f Lp Lc St kT hLp hLc hSt hkT) (ED.c_kT f Lp Lc St kT hLp hLc hSt hkT) hdet hreg
+  refine h.congr_deriv ?_
+  simp only [ED.jac, ED.jacWith, ED.der, ED.derWith, List.getD_cons_succ, List.getD_cons_zero]
+  all_goals
+    generalize calcCubicRootDerivs (ED.a f Lp Lc St kT) (ED.b f Lp Lc St kT) (ED.c f Lp Lc St kT) 1 = r
+    obtain ⟨ya, yb, yc⟩ := r
+    first | (simp only []; done) | (simp only []; ring)
+
+/-- the code's derivative of this cubic model is the derivative of the model function w.r.t. the independent variable `f` (both branches, off the regularised band) -/
+theorem ED.der_hasDerivAt (f Lp Lc St kT : ℝ) (hLp : 0 < Lp) (hLc : 0 < Lc) (hSt : 0 < St) (hkT : 0 < kT)
+    (hdet : cubDet (ED.a f Lp Lc St kT) (ED.b f Lp Lc St kT) (ED.c f Lp Lc St kT) ≠ 0)
+    (hreg : regularised (ED.a f Lp Lc St kT) (ED.b f Lp Lc St kT) (ED.c f Lp Lc St kT) = false) :
+    HasDerivAt (fun v => ED.val v Lp Lc St kT) (ED.der f Lp Lc St kT) f := by
+  have h := cubic_root_hasDerivAt (fun v => ED.a v Lp Lc St kT) (fun v => ED.b v Lp Lc St kT) (fun v => ED.c v Lp Lc St kT)
+    _ _ _ f 1 (ED.a_f f Lp Lc St kT hLp hLc hSt hkT) (ED.b_f f Lp Lc St kT hLp hLc hSt hkT) (ED.c_f f Lp Lc St kT hLp hLc hSt hkT) hdet hreg
+  refine h.congr_deriv ?_
+  simp only [ED.jac, ED.jacWith, ED.der, ED.derWith, List.getD_cons_succ, List.getD_cons_zero]
+  all_goals
+    generalize calcCubicRootDerivs (ED.a f Lp Lc St kT) (ED.b f Lp Lc St kT) (ED.c f Lp Lc St kT) 1 = r
+    obtain ⟨ya, yb, yc⟩ := r
+    first | (simp only []; done) | (simp only []; ring)
+
+/-- non-vacuity of the `ED` rows: positive parameters with `det < 0`, off the band -/
+example : cubDet (α := ℝ) (ED.a (1/2) 2 (1/2) 1 (1/2)) (ED.b (1/2) 2 (1/2) 1 (1/2)) (ED.c (1/2) 2 (1/2) 1 (1/2)) ≠ 0 ∧ regularised (α := ℝ) (ED.a (1/2) 2 (1/2) 1 (1/2)) (ED.b (1/2) 2 (1/2) 1 (1/2)) (ED.c (1/2) 2 (1/2) 1 (1/2)) = false :=
+  have h : cubDet (α := ℝ) (ED.a (1/2) 2 (1/2) 1 (1/2)) (ED.b (1/2) 2 (1/2) 1 (1/2)) (ED.c (1/2) 2 (1/2) 1 (1/2)) < 0 := by
+    simp only [ED.a, ED.b, ED.c, ED.cpoly, ED.bpoly, cubDet, cubP, cubQ, RealLike.sq, RealLike.cube]; norm_num
+  ⟨h.ne, trig_band_free _ _ _ h⟩
+
+
 /-! ## ext: twistable WLC and extensible FJC, derivative w.r.t. the force -/
 
 /-- `twlc_distance_derivative` is the derivative of `twlc_distance` on either side of the kink
@@ -699,5 +1131,904 @@ theorem efjc_distance_hasDerivAt (f Lp Lc St kT : ℝ) (hf : 0 < f) (hLp : 0 < L
     HasDerivAt (fun f => efjcDistance f Lp Lc St kT) (efjcDistanceDeriv f Lp Lc St kT) f :=
   efjc_distance_hasDerivAt_aux f Lp Lc St kT hf hLp hkT hSt hx
 example : (0:ℝ) < 5 ∧ (5:ℝ) * (2 * 1.4 / 4.11) < 300 := by norm_num
+
+/-! ## Deepening round D: the constructors ESTABLISH the hypotheses of the routing theorems
+
+  `M.WF` (Lemmas/C13b): every built-in leaf of the tree has distinct parameter names (pylake: `<name>/Lp, <name>/Lc, …, kT`).
+  `composite_indices_established`, `offset_indices_established`, `fit_indices_established` (Lemmas/C13b) show that the
+  index lists `lhs_params / rhs_params / model_params / p_indices` computed by `list.index` exist, are in range and
+  duplicate-free; here they are composed with the routing theorems into statements about `M.jac` / `jacRowS` themselves. -/
+
+
+/-- `CompositeModel.jacobian`, end to end: for sub-models with distinct leaf parameter names the index lists the
+    constructor computes exist and are duplicate-free (`composite_indices_established`), so the hypotheses of
+    `composite_jacobian` hold and entry `k` of the composite Jacobian IS the sum of what the two sides route to `k`. -/
+theorem composite_jacobian_end_to_end (l r : M) (hl : l.WF) (hr : r.WF) (x : ℝ) (p sols : List ℝ) :
+    ∃ li ri, subIdx (M.add l r).params l.params = some li ∧ subIdx (M.add l r).params r.params = some ri ∧
+      ∀ pl pr jl jr, pick li p = some pl → pick ri p = some pr →
+        l.jac x pl (sols.take l.countInv) = some jl → r.jac x pr (sols.drop l.countInv) = some jr →
+        ∃ J, (M.add l r).jac x p sols = some J ∧
+          ∀ k, k < p.length → J[k]? = some (routedSum li jl k + routedSum ri jr k) := by
+  obtain ⟨li, ri, h1, h2, _, _, h5, h6, _, _⟩ := composite_indices_established l r hl hr
+  refine ⟨li, ri, h1, h2, fun pl pr jl jr e1 e2 e3 e4 => ?_⟩
+  refine ⟨_, ?_, fun k hk => composite_jacobian p li ri jl jr h5 h6 k hk⟩
+  rw [composite_jacobian_unfold, h1, h2]
+  simp only [Option.bind_eq_bind, Option.bind_some, e1, e2, e3, e4]
+example : (M.base .odijkD ["a/Lp", "a/Lc", "a/St", "kT"]).WF ∧ (M.base .offset ["b/offset"]).WF := by
+  constructor <;> (unfold M.WF; decide)
+
+/-- `SubtractIndependentOffset.jacobian`, end to end (the hypotheses of `offset_jacobian` are established) -/
+theorem offset_jacobian_end_to_end (name : String) (m : M) (hm : m.WF) (x : ℝ) (p sols : List ℝ)
+    (hp : p.length = (M.off name m).params.length) :
+    ∃ mi oi, subIdx (M.off name m).params m.params = some mi ∧ indexOf (M.off name m).params name = some oi ∧
+      ∃ o, p[oi]? = some o ∧ ∀ pm jm dm, pick mi p = some pm → m.jac (x - o) pm sols = some jm →
+        m.der (x - o) pm sols = some dm →
+        ∃ J, (M.off name m).jac x p sols = some J ∧
+          ∀ k, k < p.length → J[k]? = some (if k = oi then -dm else routedSum mi jm k) := by
+  obtain ⟨mi, oi, h1, h2, _, h4, h5, _⟩ := offset_indices_established name m hm
+  have hoi : oi < p.length := hp ▸ h5
+  refine ⟨mi, oi, h1, h2, p[oi], List.getElem?_eq_getElem hoi, fun pm jm dm e1 e2 e3 => ?_⟩
+  refine ⟨_, ?_, fun k hk => offset_jacobian p mi jm oi dm h4 hoi k hk⟩
+  rw [offset_jacobian_unfold, h1, h2]
+  simp only [Option.bind_eq_bind, Option.bind_some, List.getElem?_eq_getElem hoi, e1, e2, e3]
+example : (M.base .odijkD ["a/Lp", "a/Lc", "a/St", "kT"]).WF := by unfold M.WF; decide
+
+/-- `Model._calculate_jacobian`, end to end: for a data set that maps its parameters to DISTINCT global names (all of
+    them collected by `_build_fit`) the row the code computes (buffered `-=`) equals the accumulating row, whose
+    column `k` is `−Σ` of the sensitivities routed to `k` (`fit_jacobian_assembly`). -/
+theorem fit_row_code_eq_accumulating (m : M) (trans : List (Tr ℝ)) (names : List String) (g : List ℝ) (x : ℝ)
+    (sols : List ℝ) (hsub : ∀ n ∈ trans.filterMap Tr.name?, n ∈ names) (hnd : (trans.filterMap Tr.name?).Nodup) :
+    jacRowS false m trans names g x sols = jacRowS true m trans names g x sols := by
+  have h := (fit_indices_established trans names hsub).2.2 hnd
+  rw [fit_row_sols_unfold, fit_row_sols_unfold]
+  simp only [Bool.false_eq_true, if_false, if_true, scatterOp_eq_scatterAcc _ _ _ _ h]
+example : ([⟨"s:a", .inl "a"⟩, ⟨"c:1", .inr 1⟩, ⟨"s:b", .inl "b"⟩] : List (Tr ℝ)).filterMap Tr.name? = ["a", "b"] ∧
+    ["a", "b"].Nodup := by
+  constructor
+  · rfl
+  · decide
+
+/-! ## Deepening round D: compositions without inversion — `M.der` differentiates `M.val` (structural induction)
+
+  `M.val` (new in the model, protocol op `c13.tree val`, tied to the public `model(x, {name: value})` of the real
+  composition on every tree case) is the model function of a tree; `tree_derivative_sound` composes the leaf theorems
+  through any nesting of `+` and `subtract_independent_offset()`. -/
+
+
+/-- every built-in leaf of the tree, at the abscissa and with the local parameters at which the tree evaluates it,
+    has the derivative `baseDer` returns (discharged per kind by the closed-form / cubic theorems) -/
+def LeafDerOK : M → ℝ → List ℝ → Prop
+  | .base k _, x, p => ∀ d, baseDer k x p = some d →
+      ∃ F : ℝ → ℝ, (∀ y, baseVal k y p = some (F y)) ∧ HasDerivAt F d x
+  | .add l r, x, p => ∀ li ri pl pr, subIdx (M.add l r).params l.params = some li →
+      subIdx (M.add l r).params r.params = some ri → pick li p = some pl → pick ri p = some pr →
+      LeafDerOK l x pl ∧ LeafDerOK r x pr
+  | .off name m, x, p => ∀ mi oi o pm, subIdx (M.off name m).params m.params = some mi →
+      indexOf (M.off name m).params name = some oi → p[oi]? = some o → pick mi p = some pm →
+      LeafDerOK m (x - o) pm
+  | .inv _, _, _ => True
+
+/-- `CompositeModel.derivative` / `SubtractIndependentOffset.derivative`, end to end: for a composition without
+    numerical inversion, whatever `M.der` returns is the derivative of the composition's model function `M.val`
+    w.r.t. the independent variable, provided the leaves are (structural induction: sum rule, shift rule). -/
+theorem tree_derivative_sound : (m : M) → (x : ℝ) → (p : List ℝ) → (d : ℝ) → m.countInv = 0 → LeafDerOK m x p →
+    m.der x p [] = some d → ∃ F : ℝ → ℝ, (∀ y, m.val y p [] = some (F y)) ∧ HasDerivAt F d x
+  | .base k names, x, p, d, _, hl, hd => by
+    rw [M.der] at hd
+    obtain ⟨F, hF, hD⟩ := hl d hd
+    exact ⟨F, fun y => by rw [M.val]; exact hF y, hD⟩
+  | .add l r, x, p, d, hc, hl, hd => by
+    simp only [M.countInv] at hc
+    have hcl : l.countInv = 0 := by omega
+    have hcr : r.countInv = 0 := by omega
+    rw [M.der] at hd
+    simp only [Option.bind_eq_bind, Option.bind_eq_some_iff, List.take_nil, List.drop_nil] at hd
+    obtain ⟨li, h1, ri, h2, pl, h3, pr, h4, dl, h5, dr, h6, h7⟩ := hd
+    obtain ⟨okl, okr⟩ := hl li ri pl pr h1 h2 h3 h4
+    obtain ⟨Fl, hFl, hDl⟩ := tree_derivative_sound l x pl dl hcl okl h5
+    obtain ⟨Fr, hFr, hDr⟩ := tree_derivative_sound r x pr dr hcr okr h6
+    refine ⟨fun y => Fl y + Fr y, fun y => ?_, ?_⟩
+    · rw [M.val]
+      simp only [Option.bind_eq_bind, List.take_nil, List.drop_nil, h1, h2, h3, h4, hFl y, hFr y, Option.bind_some]
+    · have := hDl.add hDr
+      cases h7
+      exact this
+  | .off name m, x, p, d, hc, hl, hd => by
+    simp only [M.countInv] at hc
+    rw [M.der] at hd
+    simp only [Option.bind_eq_bind, Option.bind_eq_some_iff] at hd
+    obtain ⟨mi, h1, oi, h2, o, h3, pm, h4, h5⟩ := hd
+    have ok := hl mi oi o pm h1 h2 h3 h4
+    obtain ⟨Fm, hFm, hDm⟩ := tree_derivative_sound m (x - o) pm d hc ok h5
+    refine ⟨fun y => Fm (y - o), fun y => ?_, (offset_chain_rule Fm d x o hDm).2⟩
+    rw [M.val]
+    simp only [Option.bind_eq_bind, h1, h2, h3, h4, hFm (y - o), Option.bind_some]
+  | .inv m, x, p, d, hc, _, _ => by
+    simp only [M.countInv] at hc
+    omega
+
+/-- the leaves meet `LeafDerOK` inside their validity ranges: closed forms, offsets, and the four cubic models off
+    the band (through `X.der_hasDerivAt`) -/
+theorem leaf_der_ok (names : List String) :
+    (∀ f Lp Lc St kT : ℝ, 0 < f → 0 < Lp → 0 < kT → 0 < St → LeafDerOK (.base .odijkD names) f [Lp, Lc, St, kT]) ∧
+    (∀ d Lp Lc kT : ℝ, 0 < Lp → 0 < Lc → d < Lc → LeafDerOK (.base .msF names) d [Lp, Lc, kT]) ∧
+    (∀ x o : ℝ, LeafDerOK (.base .offset names) x [o]) ∧
+    (∀ d Lp Lc St kT : ℝ, 0 < Lp → 0 < Lc → 0 < St → 0 < kT →
+      cubDet (OF.a d Lp Lc St kT) (OF.b d Lp Lc St kT) (OF.c d Lp Lc St kT) ≠ 0 →
+      regularised (OF.a d Lp Lc St kT) (OF.b d Lp Lc St kT) (OF.c d Lp Lc St kT) = false →
+      LeafDerOK (.base .odijkF names) d [Lp, Lc, St, kT]) ∧
+    (∀ f Lp Lc kT : ℝ, 0 < Lp → 0 < Lc → 0 < kT →
+      cubDet (WD.a f Lp Lc kT) (WD.b f Lp Lc kT) (WD.c f Lp Lc kT) ≠ 0 →
+      regularised (WD.a f Lp Lc kT) (WD.b f Lp Lc kT) (WD.c f Lp Lc kT) = false →
+      LeafDerOK (.base .msD names) f [Lp, Lc, kT]) ∧
+    (∀ d Lp Lc St kT : ℝ, 0 < Lp → 0 < Lc → 0 < St → 0 < kT →
+      cubDet (EF.a d Lp Lc St kT) (EF.b d Lp Lc St kT) (EF.c d Lp Lc St kT) ≠ 0 →
+      regularised (EF.a d Lp Lc St kT) (EF.b d Lp Lc St kT) (EF.c d Lp Lc St kT) = false →
+      LeafDerOK (.base .emsF names) d [Lp, Lc, St, kT]) ∧
+    (∀ f Lp Lc St kT : ℝ, 0 < Lp → 0 < Lc → 0 < St → 0 < kT →
+      cubDet (ED.a f Lp Lc St kT) (ED.b f Lp Lc St kT) (ED.c f Lp Lc St kT) ≠ 0 →
+      regularised (ED.a f Lp Lc St kT) (ED.b f Lp Lc St kT) (ED.c f Lp Lc St kT) = false →
+      LeafDerOK (.base .emsD names) f [Lp, Lc, St, kT]) ∧
+    (∀ f Lp Lc St kT : ℝ, 0 < f → 0 < Lp → 0 < kT → 0 < St → f * (2 * Lp / kT) < 300 →
+      LeafDerOK (.base .efjcD names) f [Lp, Lc, St, kT]) := by
+  refine ⟨?_, ?_, ?_, ?_, ?_, ?_, ?_, ?_⟩
+  · intro f Lp Lc St kT h1 h2 h3 h4 d hd
+    cases hd
+    exact ⟨fun y => odijkDistance y Lp Lc St kT, fun _ => rfl, odijk_distance_hasDerivAt f Lp Lc St kT h1 h2 h3 h4⟩
+  · intro d Lp Lc kT h1 h2 h3 e he
+    cases he
+    exact ⟨fun y => msForce y Lp Lc kT, fun _ => rfl, ms_force_hasDerivAt d Lp Lc kT h1 h2 h3⟩
+  · intro x o d hd
+    cases hd
+    exact ⟨fun y => offsetVal y o, fun _ => rfl, offset_hasDerivAt x o⟩
+  · intro d Lp Lc St kT h1 h2 h3 h4 h5 h6 e he
+    cases he
+    exact ⟨fun y => OF.val y Lp Lc St kT, fun _ => rfl, OF.der_hasDerivAt d Lp Lc St kT h1 h2 h3 h4 h5 h6⟩
+  · intro f Lp Lc kT h1 h2 h3 h5 h6 e he
+    cases he
+    exact ⟨fun y => WD.val y Lp Lc kT, fun _ => rfl, WD.der_hasDerivAt f Lp Lc kT h1 h2 h3 h5 h6⟩
+  · intro d Lp Lc St kT h1 h2 h3 h4 h5 h6 e he
+    cases he
+    exact ⟨fun y => EF.val y Lp Lc St kT, fun _ => rfl, EF.der_hasDerivAt d Lp Lc St kT h1 h2 h3 h4 h5 h6⟩
+  · intro f Lp Lc St kT h1 h2 h3 h4 h5 h6 e he
+    cases he
+    exact ⟨fun y => ED.val y Lp Lc St kT, fun _ => rfl, ED.der_hasDerivAt f Lp Lc St kT h1 h2 h3 h4 h5 h6⟩
+  · intro f Lp Lc St kT h1 h2 h3 h4 h5 d hd
+    cases hd
+    exact ⟨fun y => efjcDistance y Lp Lc St kT, fun _ => rfl, efjc_distance_hasDerivAt f Lp Lc St kT h1 h2 h3 h4 h5⟩
+
+/-- non-vacuity of `tree_derivative_sound`: `(odijk + distance offset).subtract_independent_offset()` at the
+    defaults — the leaves are fine, the derivative is defined, the tree has no inversion -/
+example : let m := M.off "m/f_offset" (M.add (M.base .odijkD ["m/Lp", "m/Lc", "m/St", "kT"]) (M.base .offset ["m/d_offset"]))
+    m.countInv = 0 ∧ LeafDerOK m 10 [0.5, 40, 16, 1500, 4.11, 0.01] := by
+  intro m
+  refine ⟨rfl, ?_⟩
+  intro mi oi o pm h1 h2 h3 h4
+  have e1 : mi = [1, 2, 3, 4, 5] := by
+    have : subIdx (M.off "m/f_offset" (M.add (M.base .odijkD ["m/Lp", "m/Lc", "m/St", "kT"]) (M.base .offset ["m/d_offset"]))).params
+        (M.add (M.base .odijkD ["m/Lp", "m/Lc", "m/St", "kT"]) (M.base .offset ["m/d_offset"])).params = some [1, 2, 3, 4, 5] := by decide
+    rw [this] at h1; exact (Option.some.inj h1).symm
+  have e2 : oi = 0 := by
+    have : indexOf (M.off "m/f_offset" (M.add (M.base .odijkD ["m/Lp", "m/Lc", "m/St", "kT"]) (M.base .offset ["m/d_offset"]))).params
+        "m/f_offset" = some 0 := by decide
+    rw [this] at h2; exact (Option.some.inj h2).symm
+  subst e1 e2
+  have e3 : o = 0.5 := by simpa using h3.symm
+  have e4 : pm = [40, 16, 1500, 4.11, 0.01] := by
+    simp [pick] at h4; exact h4.symm
+  subst e3 e4
+  intro li ri pl pr g1 g2 g3 g4
+  have f1 : li = [0, 1, 2, 3] := by
+    have : subIdx (M.add (M.base .odijkD ["m/Lp", "m/Lc", "m/St", "kT"]) (M.base .offset ["m/d_offset"])).params
+        (M.base .odijkD ["m/Lp", "m/Lc", "m/St", "kT"]).params = some [0, 1, 2, 3] := by decide
+    rw [this] at g1; exact (Option.some.inj g1).symm
+  have f2 : ri = [4] := by
+    have : subIdx (M.add (M.base .odijkD ["m/Lp", "m/Lc", "m/St", "kT"]) (M.base .offset ["m/d_offset"])).params
+        (M.base .offset ["m/d_offset"]).params = some [4] := by decide
+    rw [this] at g2; exact (Option.some.inj g2).symm
+  subst f1 f2
+  have f3 : pl = [40, 16, 1500, 4.11] := by simp [pick] at g3; exact g3.symm
+  have f4 : pr = [0.01] := by simp [pick] at g4; exact g4.symm
+  subst f3 f4
+  exact ⟨(leaf_der_ok _).1 _ _ _ _ _ (by norm_num) (by norm_num) (by norm_num) (by norm_num), (leaf_der_ok _).2.2.1 _ _⟩
+
+/-! ## Deepening round D: `generate_conditions` / `Fit._calculate_jacobian` — nothing lost, shape of the result -/
+
+
+theorem nodup_eraseDups_aux {κ : Type} [BEq κ] [LawfulBEq κ] : ∀ (n : Nat) (l : List κ), l.length ≤ n → l.eraseDups.Nodup
+  | 0, l, h => by
+    have : l = [] := List.length_eq_zero_iff.mp (by omega)
+    subst this; simp
+  | n + 1, [], _ => by simp
+  | n + 1, a :: as, h => by
+    rw [List.eraseDups_cons]
+    refine List.nodup_cons.mpr ⟨?_, nodup_eraseDups_aux n _ ?_⟩
+    · intro hm
+      rw [List.mem_eraseDups] at hm
+      have := (List.mem_filter.mp hm).2
+      simp at this
+    · have := List.length_filter_le (fun b => !b == a) as
+      simp only [List.length_cons] at h
+      omega
+
+theorem nodup_eraseDups {κ : Type} [BEq κ] [LawfulBEq κ] (l : List κ) : l.eraseDups.Nodup :=
+  nodup_eraseDups_aux l.length l (Nat.le_refl _)
+
+theorem filter_or_perm {δ : Type} (p q : δ → Bool) (hpq : ∀ d, ¬(p d = true ∧ q d = true)) :
+    ∀ l : List δ, (l.filter fun d => p d || q d).Perm (l.filter p ++ l.filter q)
+  | [] => List.Perm.refl _
+  | d :: l => by
+    have ih := filter_or_perm p q hpq l
+    cases hp : p d <;> cases hq : q d
+    · simp only [List.filter_cons, hp, hq, Bool.or_self, Bool.false_eq_true, if_false]; exact ih
+    · simp only [List.filter_cons, hp, hq, Bool.or_true, Bool.false_eq_true, if_false, if_true]
+      exact (List.Perm.cons d ih).trans List.perm_middle.symm
+    · simp only [List.filter_cons, hp, hq, Bool.or_false, Bool.false_eq_true, if_false, if_true, List.cons_append]
+      exact List.Perm.cons d ih
+    · exact absurd ⟨hp, hq⟩ (hpq d)
+
+theorem groups_perm {δ κ : Type} [BEq κ] [LawfulBEq κ] (key : δ → κ) (ds : List δ) :
+    ∀ ks : List κ, ks.Nodup → (ks.flatMap fun k => ds.filter fun d => key d == k).Perm (ds.filter fun d => ks.contains (key d))
+  | [], _ => by simp
+  | k :: ks, h => by
+    obtain ⟨hk, hks⟩ := List.nodup_cons.mp h
+    have ih := groups_perm key ds ks hks
+    rw [List.flatMap_cons]
+    have e : (fun d => (k :: ks).contains (key d)) = fun d => (key d == k) || ks.contains (key d) := by
+      funext d; rw [List.contains_cons]
+    rw [e]
+    refine (List.Perm.append_left _ ih).trans (filter_or_perm _ _ ?_ ds).symm
+    intro d ⟨h1, h2⟩
+    have : key d = k := by simpa using h1
+    rw [this] at h2
+    exact hk (by simpa using h2)
+
+/-- `generate_conditions` loses and duplicates nothing: the data sets of all conditions together are a permutation of
+    the data sets of the model (so the fit Jacobian has exactly one block of rows per data set) -/
+theorem groupConditions_perm (ds : List (DataSet ℝ)) : (groupConditions ds).flatten.Perm ds := by
+  unfold groupConditions
+  simp only []
+  rw [← List.flatMap_def]
+  have h := groups_perm (fun d : DataSet ℝ => d.trans.map (·.key)) ds _
+    (nodup_eraseDups (ds.map fun d : DataSet ℝ => d.trans.map (·.key)))
+  refine h.trans ?_
+  rw [List.filter_eq_self.mpr]
+  intro d hd
+  rw [List.contains_iff_mem, List.mem_eraseDups]
+  exact List.mem_map.mpr ⟨d, hd, rfl⟩
+
+/-- every condition collects data sets with one and the same condition string -/
+theorem groupConditions_same_key (ds : List (DataSet ℝ)) (grp : List (DataSet ℝ)) (hg : grp ∈ groupConditions ds)
+    (d1 d2 : DataSet ℝ) (h1 : d1 ∈ grp) (h2 : d2 ∈ grp) : d1.trans.map (·.key) = d2.trans.map (·.key) := by
+  unfold groupConditions at hg
+  simp only [] at hg
+  obtain ⟨k, _, rfl⟩ := List.mem_map.mp hg
+  have a := (List.mem_filter.mp h1).2
+  have b := (List.mem_filter.mp h2).2
+  simp only [beq_iff_eq] at a b
+  rw [a, b]
+
+theorem withSols_length {α : Type} : ∀ (xs : List α) (ss : List (List α)), (withSols xs ss).length = xs.length
+  | [], _ => by simp [withSols]
+  | x :: xs, [] => by simp [withSols, withSols_length xs []]
+  | x :: xs, s :: ss => by simp [withSols, withSols_length xs ss]
+
+theorem mapM_id_some {β : Type} : ∀ (l : List (Option β)) (rows : List β), l.mapM id = some rows → l = rows.map some
+  | [], rows, h => by
+    simp at h; subst h; rfl
+  | o :: l, rows, h => by
+    rw [List.mapM_cons] at h
+    cases o with
+    | none => simp at h
+    | some b =>
+      cases hl : l.mapM id with
+      | none => simp [hl] at h
+      | some bs =>
+        simp [hl] at h
+        subst h
+        rw [List.map_cons, mapM_id_some l bs hl]
+
+theorem flatMap_flatMap_flatten {δ β : Type} (f : δ → List β) : ∀ L : List (List δ),
+    (L.flatMap fun grp => grp.flatMap f) = L.flatten.flatMap f
+  | [] => rfl
+  | grp :: L => by
+    rw [List.flatMap_cons, List.flatten_cons, List.flatMap_append, flatMap_flatMap_flatten f L]
+
+theorem length_flatMap_congr {δ β γ : Type} (f : δ → List β) (g : δ → List γ) :
+    ∀ l : List δ, (∀ a ∈ l, (f a).length = (g a).length) → (l.flatMap f).length = (l.flatMap g).length
+  | [], _ => rfl
+  | a :: l, h => by
+    rw [List.flatMap_cons, List.flatMap_cons, List.length_append, List.length_append, h a List.mem_cons_self,
+      length_flatMap_congr f g l (fun b hb => h b (List.mem_cons_of_mem _ hb))]
+
+theorem jacRowS_length (fixed : Bool) (m : M) (trans : List (Tr ℝ)) (names : List String) (g : List ℝ) (x : ℝ)
+    (sols row : List ℝ) (h : jacRowS fixed m trans names g x sols = some row) : row.length = g.length := by
+  rw [fit_row_sols_unfold] at h
+  simp only [Option.bind_eq_bind, Option.bind_eq_some_iff] at h
+  obtain ⟨pl, _, j, _, sens, _, h⟩ := h
+  have := Option.some.inj h
+  subst this
+  cases fixed
+  · simp only [Bool.false_eq_true, if_false, scatterOp_length, List.length_map]
+  · simp only [if_true, scatterAcc_length, List.length_map]
+
+/-- `Fit._calculate_jacobian`, shape: the columns are the global parameter names of `_build_fit`, one row per data
+    point of every data set (conditions regroup the data sets of a model but lose / duplicate none:
+    `groupConditions_perm`), every row as long as the parameter vector -/
+theorem fitJacobian_shape (fixed : Bool) (models : List (M × List (DataSet ℝ))) (g : List ℝ) (names : List String)
+    (rows : List (List ℝ)) (h : fitJacobian fixed models g = some (names, rows)) :
+    names = globalNames models ∧ names.length = g.length ∧
+    rows.length = (models.flatMap fun md => md.2.flatMap fun d => d.xs).length ∧
+    ∀ row ∈ rows, row.length = g.length := by
+  unfold fitJacobian at h
+  simp only [Option.bind_eq_bind] at h
+  by_cases hlen : (globalNames models).length = g.length
+  · simp only [hlen, bne_self_eq_false, Bool.false_eq_true, if_false, Option.bind_eq_some_iff] at h
+    obtain ⟨rows', hrows, h⟩ := h
+    have e := Option.some.inj h
+    simp only [Prod.mk.injEq] at e
+    obtain ⟨e1, e2⟩ := e
+    subst e1 e2
+    have hl := mapM_id_some _ _ hrows
+    refine ⟨rfl, hlen, ?_, ?_⟩
+    · have := congrArg List.length hl
+      rw [List.length_map] at this
+      rw [← this]
+      apply length_flatMap_congr
+      intro md _
+      have hp := groupConditions_perm md.2
+      rw [flatMap_flatMap_flatten, (hp.flatMap_right _).length_eq]
+      apply length_flatMap_congr
+      intro d _
+      rw [List.length_map, DataSet.points, withSols_length]
+    · intro row hrow
+      have : some row ∈ rows'.map some := List.mem_map.mpr ⟨row, hrow, rfl⟩
+      rw [← hl] at this
+      obtain ⟨md, _, hm⟩ := List.mem_flatMap.mp this
+      obtain ⟨grp, _, hm⟩ := List.mem_flatMap.mp hm
+      obtain ⟨d, _, hm⟩ := List.mem_flatMap.mp hm
+      obtain ⟨xs, _, hm⟩ := List.mem_map.mp hm
+      exact jacRowS_length _ _ _ _ _ _ _ _ hm
+  · have : ((globalNames models).length != g.length) = true := by simpa using hlen
+    simp [this] at h
+
+/-! ## Deepening round D: eFJC and tWLC Jacobian rows w.r.t. the parameters -/
+
+/-- the four rows of `efjc_distance_jac` are `∂/∂L_p, ∂/∂L_c, ∂/∂S_t, ∂/∂kT` of `efjc_distance` below the code's
+    overflow guard (`2 f L_p / kT < 300`; above it the code replaces `1/sinh²` by 0 and `coth` by 1) -/
+theorem efjc_distance_jac (f Lp Lc St kT : ℝ) (hf : 0 < f) (hLp : 0 < Lp) (hkT : 0 < kT) (hSt : 0 < St)
+    (hx : f * (2 * Lp / kT) < 300) :
+    (efjcDistanceJac f Lp Lc St kT).length = 4 ∧
+    HasDerivAt (fun Lp => efjcDistance f Lp Lc St kT) ((efjcDistanceJac f Lp Lc St kT).getD 0 0) Lp ∧
+    HasDerivAt (fun Lc => efjcDistance f Lp Lc St kT) ((efjcDistanceJac f Lp Lc St kT).getD 1 0) Lc ∧
+    HasDerivAt (fun St => efjcDistance f Lp Lc St kT) ((efjcDistanceJac f Lp Lc St kT).getD 2 0) St ∧
+    HasDerivAt (fun kT => efjcDistance f Lp Lc St kT) ((efjcDistanceJac f Lp Lc St kT).getD 3 0) kT :=
+  ⟨rfl, efjc_jac_Lp f Lp Lc St kT hf hLp hkT hSt hx, efjc_jac_Lc f Lp Lc St kT, efjc_jac_St f Lp Lc St kT hSt,
+   efjc_jac_kT f Lp Lc St kT hf hLp hkT hSt hx⟩
+example : (0:ℝ) < 5 ∧ (5:ℝ) * (2 * 1.4 / 4.11) < 300 := by norm_num
+
+/-- the eight rows of `twlc_distance_jac` are the partial derivatives of `twlc_distance` w.r.t.
+    `L_p, L_c, S_t, C, g0, g1, F_c, kT` on either side of the kink `f = F_c`, inside the validity range
+    (`C S_t ≠ g²`, `g ≠ 0` where the code divides by `g`); in particular the `F_c` row is `0` above the kink -/
+theorem twlc_distance_jac (f Lp Lc St C g0 g1 Fc kT : ℝ) (hf : 0 < f) (hLp : 0 < Lp) (hkT : 0 < kT) :
+    (twlcDistanceJac f Lp Lc St C g0 g1 Fc kT).length = 8 ∧
+    (Fc < f → C * St - (g0 + g1 * f) * (g0 + g1 * f) ≠ 0 → g0 + g1 * f ≠ 0 →
+      HasDerivAt (fun v => twlcDistance f v Lc St C g0 g1 Fc kT) ((twlcDistanceJac f Lp Lc St C g0 g1 Fc kT).getD 0 0) Lp ∧
+      HasDerivAt (fun v => twlcDistance f Lp v St C g0 g1 Fc kT) ((twlcDistanceJac f Lp Lc St C g0 g1 Fc kT).getD 1 0) Lc ∧
+      HasDerivAt (fun v => twlcDistance f Lp Lc v C g0 g1 Fc kT) ((twlcDistanceJac f Lp Lc St C g0 g1 Fc kT).getD 2 0) St ∧
+      HasDerivAt (fun v => twlcDistance f Lp Lc St v g0 g1 Fc kT) ((twlcDistanceJac f Lp Lc St C g0 g1 Fc kT).getD 3 0) C ∧
+      HasDerivAt (fun v => twlcDistance f Lp Lc St C v g1 Fc kT) ((twlcDistanceJac f Lp Lc St C g0 g1 Fc kT).getD 4 0) g0 ∧
+      HasDerivAt (fun v => twlcDistance f Lp Lc St C g0 v Fc kT) ((twlcDistanceJac f Lp Lc St C g0 g1 Fc kT).getD 5 0) g1 ∧
+      HasDerivAt (fun v => twlcDistance f Lp Lc St C g0 g1 v kT) ((twlcDistanceJac f Lp Lc St C g0 g1 Fc kT).getD 6 0) Fc ∧
+      HasDerivAt (fun v => twlcDistance f Lp Lc St C g0 g1 Fc v) ((twlcDistanceJac f Lp Lc St C g0 g1 Fc kT).getD 7 0) kT) ∧
+    (f < Fc → C * St - (g0 + g1 * Fc) * (g0 + g1 * Fc) ≠ 0 → g0 + g1 * Fc ≠ 0 →
+      HasDerivAt (fun v => twlcDistance f v Lc St C g0 g1 Fc kT) ((twlcDistanceJac f Lp Lc St C g0 g1 Fc kT).getD 0 0) Lp ∧
+      HasDerivAt (fun v => twlcDistance f Lp v St C g0 g1 Fc kT) ((twlcDistanceJac f Lp Lc St C g0 g1 Fc kT).getD 1 0) Lc ∧
+      HasDerivAt (fun v => twlcDistance f Lp Lc v C g0 g1 Fc kT) ((twlcDistanceJac f Lp Lc St C g0 g1 Fc kT).getD 2 0) St ∧
+      HasDerivAt (fun v => twlcDistance f Lp Lc St v g0 g1 Fc kT) ((twlcDistanceJac f Lp Lc St C g0 g1 Fc kT).getD 3 0) C ∧
+      HasDerivAt (fun v => twlcDistance f Lp Lc St C v g1 Fc kT) ((twlcDistanceJac f Lp Lc St C g0 g1 Fc kT).getD 4 0) g0 ∧
+      HasDerivAt (fun v => twlcDistance f Lp Lc St C g0 v Fc kT) ((twlcDistanceJac f Lp Lc St C g0 g1 Fc kT).getD 5 0) g1 ∧
+      HasDerivAt (fun v => twlcDistance f Lp Lc St C g0 g1 v kT) ((twlcDistanceJac f Lp Lc St C g0 g1 Fc kT).getD 6 0) Fc ∧
+      HasDerivAt (fun v => twlcDistance f Lp Lc St C g0 g1 Fc v) ((twlcDistanceJac f Lp Lc St C g0 g1 Fc kT).getD 7 0) kT) :=
+  ⟨rfl, fun h1 h2 h3 => ⟨twlc_jac_above_Lp f Lp Lc St C g0 g1 Fc kT hf hLp hkT h1 h2 h3, twlc_jac_above_Lc f Lp Lc St C g0 g1 Fc kT hf hLp hkT h1 h2 h3, twlc_jac_above_St f Lp Lc St C g0 g1 Fc kT hf hLp hkT h1 h2 h3, twlc_jac_above_C f Lp Lc St C g0 g1 Fc kT hf hLp hkT h1 h2 h3, twlc_jac_above_g0 f Lp Lc St C g0 g1 Fc kT hf hLp hkT h1 h2 h3, twlc_jac_above_g1 f Lp Lc St C g0 g1 Fc kT hf hLp hkT h1 h2 h3, twlc_jac_above_Fc f Lp Lc St C g0 g1 Fc kT hf hLp hkT h1 h2 h3, twlc_jac_above_kT f Lp Lc St C g0 g1 Fc kT hf hLp hkT h1 h2 h3⟩,
+   fun h1 h2 h3 => ⟨twlc_jac_below_Lp f Lp Lc St C g0 g1 Fc kT hf hLp hkT h1 h2 h3, twlc_jac_below_Lc f Lp Lc St C g0 g1 Fc kT hf hLp hkT h1 h2 h3, twlc_jac_below_St f Lp Lc St C g0 g1 Fc kT hf hLp hkT h1 h2 h3, twlc_jac_below_C f Lp Lc St C g0 g1 Fc kT hf hLp hkT h1 h2 h3, twlc_jac_below_g0 f Lp Lc St C g0 g1 Fc kT hf hLp hkT h1 h2 h3, twlc_jac_below_g1 f Lp Lc St C g0 g1 Fc kT hf hLp hkT h1 h2 h3, twlc_jac_below_Fc f Lp Lc St C g0 g1 Fc kT hf hLp hkT h1 h2 h3, twlc_jac_below_kT f Lp Lc St C g0 g1 Fc kT hf hLp hkT h1 h2 h3⟩⟩
+/-- non-vacuity at the defaults, `f = 40 > F_c = 30.6` and `f = 20 < F_c`: `g = 43`, `g = −116.8` -/
+example : (30.6:ℝ) < 40 ∧ (440:ℝ) * 1500 - (-637 + 17 * 40) * (-637 + 17 * 40) ≠ 0 ∧ (-637:ℝ) + 17 * 40 ≠ 0 ∧
+    (20:ℝ) < 30.6 ∧ (440:ℝ) * 1500 - (-637 + 17 * 30.6) * (-637 + 17 * 30.6) ≠ 0 ∧ (-637:ℝ) + 17 * 30.6 ≠ 0 := by
+  norm_num
+
+/-! ## Deepening round D: the eFJC in its guarded regimes -/
+
+/-- rows `L_c`, `S_t` of `efjc_distance_jac` are the partial derivatives in EVERY regime of the overflow guards
+    (the guarded `coth` is a constant for them) -/
+theorem efjc_distance_jac_Lc_St (f Lp Lc St kT : ℝ) (hSt : 0 < St) :
+    HasDerivAt (fun Lc => efjcDistance f Lp Lc St kT) ((efjcDistanceJac f Lp Lc St kT).getD 1 0) Lc ∧
+    HasDerivAt (fun St => efjcDistance f Lp Lc St kT) ((efjcDistanceJac f Lp Lc St kT).getD 2 0) St :=
+  ⟨efjc_jac_Lc f Lp Lc St kT, efjc_jac_St f Lp Lc St kT hSt⟩
+example : (0:ℝ) < 1500 := by norm_num
+
+/-- above the second guard (`2 f L_p / kT > 500`) the code sets `coth = 1` in the MODEL FUNCTION and drops `1/sinh²` in
+    the derivative and in the rows `L_p`, `kT`: consistent — all of them are exact derivatives of the function the
+    code computes there -/
+theorem efjc_distance_above_guards (f Lp Lc St kT : ℝ) (hf : 0 < f) (hLp : 0 < Lp) (hkT : 0 < kT) (hSt : 0 < St)
+    (hx : 500 < f * (2 * Lp / kT)) :
+    HasDerivAt (fun f => efjcDistance f Lp Lc St kT) (efjcDistanceDeriv f Lp Lc St kT) f ∧
+    HasDerivAt (fun Lp => efjcDistance f Lp Lc St kT) ((efjcDistanceJac f Lp Lc St kT).getD 0 0) Lp ∧
+    HasDerivAt (fun kT => efjcDistance f Lp Lc St kT) ((efjcDistanceJac f Lp Lc St kT).getD 3 0) kT :=
+  ⟨efjc_deriv_above_guards f Lp Lc St kT hf hLp hkT hSt hx, efjc_jac_Lp_above f Lp Lc St kT hf hLp hkT hSt hx,
+   efjc_jac_kT_above f Lp Lc St kT hf hLp hkT hSt hx⟩
+/-- the library's default `L_p = 40 nm`, `kT = 4.11`, `f = 30 pN`: `2 f L_p / kT ≈ 584` -/
+example : (500:ℝ) < 30 * (2 * 40 / 4.11) := by norm_num
+
+/-- between the guards (`300 < 2 f L_p / kT < 500`) the model function still has the true `coth`, the derivative has
+    lost its `1/sinh²` term: the true derivative is the code's value minus `L_c (f/S_t + 1)(2 L_p/kT) / sinh²(2 f L_p/kT)`,
+    and that defect is at most `2⁻⁵⁹⁶ ≈ 4·10⁻¹⁸⁰` times `L_c (f/S_t + 1)(2 L_p/kT)` — far below what any
+    numerical differentiation resolves -/
+theorem efjc_distance_between_guards (f Lp Lc St kT : ℝ) (hf : 0 < f) (hLp : 0 < Lp) (hkT : 0 < kT) (hSt : 0 < St)
+    (hlo : 300 < f * (2 * Lp / kT)) (hhi : f * (2 * Lp / kT) < 500) :
+    HasDerivAt (fun f => efjcDistance f Lp Lc St kT)
+      (efjcDistanceDeriv f Lp Lc St kT - Lc * (f / St + 1) * (2 * Lp / kT) / (Real.sinh (f * (2 * Lp / kT))) ^ 2) f ∧
+    1 / (Real.sinh (f * (2 * Lp / kT))) ^ 2 ≤ 1 / 2 ^ 596 :=
+  ⟨efjc_deriv_between_guards f Lp Lc St kT hf hLp hkT hSt hlo hhi, inv_sinh_sq_le _ hlo.le⟩
+/-- `L_p = 40`, `kT = 4.11`, `f = 20`: `2 f L_p / kT ≈ 389` -/
+example : (300:ℝ) < 20 * (2 * 40 / 4.11) ∧ (20:ℝ) * (2 * 40 / 4.11) < 500 := by constructor <;> norm_num
+
+/-! ## Deepening round D: compositions without inversion — `M.jac` is the gradient of `M.val` (structural induction) -/
+
+
+section picklemmas
+variable {β : Type}
+
+theorem pick_cons (i : Nat) (idx : List Nat) (v : List β) :
+    pick (i :: idx) v = (do let a ← v[i]?; let as ← pick idx v; pure (a :: as)) := by
+  unfold pick
+  rw [List.mapM_cons]
+
+theorem pick_set_not_mem (idx : List Nat) (p : List β) (k : Nat) (v : β) (h : k ∉ idx) :
+    pick idx (p.set k v) = pick idx p := by
+  induction idx with
+  | nil => rfl
+  | cons i idx ih =>
+    have hik : k ≠ i := fun e => h (e ▸ List.mem_cons_self)
+    rw [pick_cons, pick_cons, ih (fun hm => h (List.mem_cons_of_mem _ hm)), List.getElem?_set_ne hik]
+
+theorem pick_length (idx : List Nat) (p q : List β) (h : pick idx p = some q) : q.length = idx.length := by
+  induction idx generalizing q with
+  | nil => unfold pick at h; simp at h; subst h; rfl
+  | cons i idx ih =>
+    rw [pick_cons] at h
+    simp only [Option.bind_eq_bind, Option.bind_eq_some_iff, Option.pure_def] at h
+    obtain ⟨a, _, as, h2, h3⟩ := h
+    have := Option.some.inj h3
+    subst this
+    rw [List.length_cons, List.length_cons, ih as h2]
+
+theorem pick_getElem? (idx : List Nat) (p q : List β) (h : pick idx p = some q) (j i : Nat) (hj : idx[j]? = some i) :
+    q[j]? = p[i]? := by
+  induction idx generalizing q j with
+  | nil => simp at hj
+  | cons i0 idx ih =>
+    rw [pick_cons] at h
+    simp only [Option.bind_eq_bind, Option.bind_eq_some_iff, Option.pure_def] at h
+    obtain ⟨a, h1, as, h2, h3⟩ := h
+    have := Option.some.inj h3
+    subst this
+    cases j with
+    | zero =>
+      simp only [List.getElem?_cons_zero, Option.some.injEq] at hj
+      subst hj
+      rw [List.getElem?_cons_zero, h1]
+    | succ j =>
+      rw [List.getElem?_cons_succ] at hj
+      rw [List.getElem?_cons_succ]
+      exact ih as h2 j hj
+
+theorem pick_set_mem (idx : List Nat) (hnd : idx.Nodup) (p q : List β) (k : Nat) (v : β) (j : Nat)
+    (hj : idx[j]? = some k) (hp : pick idx p = some q) (hk : k < p.length) :
+    pick idx (p.set k v) = some (q.set j v) := by
+  induction idx generalizing q j with
+  | nil => simp at hj
+  | cons i idx ih =>
+    obtain ⟨hi, hnd'⟩ := List.nodup_cons.mp hnd
+    rw [pick_cons] at hp
+    simp only [Option.bind_eq_bind, Option.bind_eq_some_iff, Option.pure_def] at hp
+    obtain ⟨a, h1, as, h2, h3⟩ := hp
+    have := Option.some.inj h3
+    subst this
+    cases j with
+    | zero =>
+      simp only [List.getElem?_cons_zero, Option.some.injEq] at hj
+      subst hj
+      rw [pick_cons, pick_set_not_mem idx p i v hi, h2, List.getElem?_set_self hk]
+      rfl
+    | succ j =>
+      rw [List.getElem?_cons_succ] at hj
+      have hmem : k ∈ idx := List.mem_of_getElem? hj
+      have hik : k ≠ i := fun e => hi (e ▸ hmem)
+      rw [pick_cons, ih hnd' as j hj h2, List.getElem?_set_ne hik, h1]
+      rfl
+end picklemmas
+
+theorem routedSum_not_mem (idx : List Nat) (vals : List ℝ) (k : Nat) (h : k ∉ idx) : routedSum idx vals k = 0 := by
+  unfold routedSum
+  have : (idx.zip vals).filter (fun iv => iv.1 == k) = [] := by
+    rw [List.filter_eq_nil_iff]
+    intro iv hiv
+    have := (List.of_mem_zip hiv).1
+    intro e
+    have e' : iv.1 = k := by simpa using e
+    exact h (e' ▸ this)
+  rw [this]; rfl
+
+theorem routedSum_nodup (idx : List Nat) (hnd : idx.Nodup) (vals : List ℝ) (k j : Nat) (hj : idx[j]? = some k) :
+    routedSum idx vals k = vals.getD j 0 := by
+  induction idx generalizing vals j with
+  | nil => simp at hj
+  | cons i idx ih =>
+    obtain ⟨hi, hnd'⟩ := List.nodup_cons.mp hnd
+    cases vals with
+    | nil => simp [routedSum]
+    | cons a vals =>
+      cases j with
+      | zero =>
+        simp only [List.getElem?_cons_zero, Option.some.injEq] at hj
+        subst hj
+        have h0 := routedSum_not_mem idx vals i hi
+        unfold routedSum at h0 ⊢
+        simp only [List.zip_cons_cons, List.filter_cons, beq_self_eq_true, if_true, List.map_cons, List.sum_cons, h0,
+          List.getD_cons_zero, add_zero]
+      | succ j =>
+        rw [List.getElem?_cons_succ] at hj
+        have hmem : k ∈ idx := List.mem_of_getElem? hj
+        have hik : i ≠ k := fun e => hi (e ▸ hmem)
+        have h1 := ih hnd' vals j hj
+        unfold routedSum at h1 ⊢
+        have : (i == k) = false := by simpa using hik
+        simp only [List.zip_cons_cons, List.filter_cons, this, Bool.false_eq_true, if_false, h1, List.getD_cons_succ]
+
+/-- `M.WF` plus: the offset parameter of a `subtract_independent_offset()` is not a parameter of the wrapped model
+    (pylake names it `<model>/<x>_offset`) -/
+def M.WF2 : M → Prop
+  | .base _ names => names.Nodup
+  | .add l r => l.WF2 ∧ r.WF2
+  | .off name m => m.WF2 ∧ name ∉ m.params
+  | .inv m => m.WF2
+
+theorem M.WF2.wf : (m : M) → m.WF2 → m.WF
+  | .base _ _, h => h
+  | .add l r, h => ⟨M.WF2.wf l h.1, M.WF2.wf r h.2⟩
+  | .off _ m, h => M.WF2.wf m h.1
+  | .inv m, h => M.WF2.wf m h
+
+/-- what it means that `J` is the gradient of the tree's model function w.r.t. the parameter vector at `p`:
+    entry `i` is the derivative of `v ↦ M.val x (p with entry i replaced by v)` at `v = p[i]` -/
+def JacSound (m : M) (x : ℝ) (p J : List ℝ) : Prop :=
+  (∃ c, m.val x p [] = some c) ∧
+  ∀ i, i < p.length → ∃ G : ℝ → ℝ, (∀ v, m.val x (p.set i v) [] = some (G v)) ∧ HasDerivAt G (J.getD i 0) (p.getD i 0)
+
+/-- every leaf, at the abscissa and local parameters at which the tree evaluates it, has the gradient `baseJac`
+    returns (and, under an offset, the derivative `baseDer` returns) -/
+def LeafJacOK : M → ℝ → List ℝ → Prop
+  | .base k _, x, p => ∀ J, baseJac k x p = some J → (∃ c, baseVal k x p = some c) ∧
+      ∀ i, i < p.length → ∃ G : ℝ → ℝ, (∀ v, baseVal k x (p.set i v) = some (G v)) ∧ HasDerivAt G (J.getD i 0) (p.getD i 0)
+  | .add l r, x, p => ∀ li ri pl pr, subIdx (M.add l r).params l.params = some li →
+      subIdx (M.add l r).params r.params = some ri → pick li p = some pl → pick ri p = some pr →
+      LeafJacOK l x pl ∧ LeafJacOK r x pr
+  | .off name m, x, p => ∀ mi oi o pm, subIdx (M.off name m).params m.params = some mi →
+      indexOf (M.off name m).params name = some oi → p[oi]? = some o → pick mi p = some pm →
+      LeafJacOK m (x - o) pm ∧ LeafDerOK m (x - o) pm
+  | .inv _, _, _ => True
+
+theorem getD_of_getElem?_eq {a b : List ℝ} {i j : Nat} (h : a[i]? = b[j]?) : a.getD i 0 = b.getD j 0 := by
+  rw [List.getD_eq_getElem?_getD, List.getD_eq_getElem?_getD, h]
+
+/-- one side of a composition: the parameters of the sub-model are picked out of `p` by a duplicate-free index list;
+    varying entry `i` of `p` varies at most one entry of the sub-model's vector, and the derivative is what the
+    scatter routes to `i` -/
+theorem routed_side (sub : M) (idx : List Nat) (hnd : idx.Nodup) (p q jq : List ℝ) (x : ℝ) (hpick : pick idx p = some q)
+    (hs : JacSound sub x q jq) (i : Nat) (hi : i < p.length) :
+    ∃ G : ℝ → ℝ, (∀ v, ∃ q', pick idx (p.set i v) = some q' ∧ sub.val x q' [] = some (G v)) ∧
+      HasDerivAt G (routedSum idx jq i) (p.getD i 0) := by
+  by_cases hmem : i ∈ idx
+  · obtain ⟨j, hj⟩ := List.mem_iff_getElem?.mp hmem
+    have hjlt : j < q.length := by
+      rw [pick_length idx p q hpick]
+      exact (List.getElem?_eq_some_iff.mp hj).1
+    obtain ⟨G, hG, hD⟩ := hs.2 j hjlt
+    refine ⟨G, fun v => ⟨q.set j v, pick_set_mem idx hnd p q i v j hj hpick hi, hG v⟩, ?_⟩
+    rw [routedSum_nodup idx hnd jq i j hj, ← getD_of_getElem?_eq (pick_getElem? idx p q hpick j i hj)]
+    exact hD
+  · obtain ⟨c, hc⟩ := hs.1
+    refine ⟨fun _ => c, fun v => ⟨q, by rw [pick_set_not_mem idx p i v hmem]; exact hpick, hc⟩, ?_⟩
+    rw [routedSum_not_mem idx jq i hmem]
+    exact hasDerivAt_const _ _
+
+/-- `CompositeModel.jacobian` / `SubtractIndependentOffset.jacobian`, end to end and semantically: for a composition
+    without numerical inversion whose leaves have distinct parameter names, the list `M.jac` returns is the GRADIENT
+    of the composition's model function `M.val` w.r.t. the parameter vector — entry by entry a `HasDerivAt` —
+    provided the leaves' Jacobians / derivatives are (structural induction; shared parameters add, the offset's
+    entry is `−f'`). -/
+theorem tree_jacobian_sound : (m : M) → (x : ℝ) → (p J : List ℝ) → m.countInv = 0 → m.WF2 →
+    p.length = m.params.length → LeafJacOK m x p → m.jac x p [] = some J → JacSound m x p J
+  | .base k names, x, p, J, _, _, _, hl, hj => by
+    rw [M.jac] at hj
+    obtain ⟨hc, hG⟩ := hl J hj
+    refine ⟨?_, fun i hi => ?_⟩
+    · obtain ⟨c, hc⟩ := hc
+      exact ⟨c, by rw [M.val]; exact hc⟩
+    · obtain ⟨G, hG1, hG2⟩ := hG i hi
+      exact ⟨G, fun v => by rw [M.val]; exact hG1 v, hG2⟩
+  | .add l r, x, p, J, hc, hwf, hlen, hl, hj => by
+    simp only [M.countInv] at hc
+    have hcl : l.countInv = 0 := by omega
+    have hcr : r.countInv = 0 := by omega
+    obtain ⟨li, ri, e1, e2, ll, lr, ndl, ndr, _, _⟩ := composite_indices_established l r (M.WF2.wf l hwf.1) (M.WF2.wf r hwf.2)
+    rw [composite_jacobian_unfold] at hj
+    simp only [Option.bind_eq_bind, Option.bind_eq_some_iff, List.take_nil, List.drop_nil, e1, e2, Option.some.injEq,
+      exists_eq_left'] at hj
+    obtain ⟨pl, h3, pr, h4, jl, h5, jr, h6, h7⟩ := hj
+    obtain ⟨okl, okr⟩ := hl li ri pl pr e1 e2 h3 h4
+    have sl := tree_jacobian_sound l x pl jl hcl hwf.1 (by rw [pick_length li p pl h3, ll]) okl h5
+    have sr := tree_jacobian_sound r x pr jr hcr hwf.2 (by rw [pick_length ri p pr h4, lr]) okr h6
+    subst h7
+    refine ⟨?_, fun i hi => ?_⟩
+    · obtain ⟨cl, hcl'⟩ := sl.1
+      obtain ⟨cr, hcr'⟩ := sr.1
+      refine ⟨cl + cr, ?_⟩
+      rw [M.val]
+      simp only [Option.bind_eq_bind, List.take_nil, List.drop_nil, e1, e2, h3, h4, hcl', hcr', Option.bind_some]
+    · obtain ⟨Gl, hGl, hDl⟩ := routed_side l li ndl p pl jl x h3 sl i hi
+      obtain ⟨Gr, hGr, hDr⟩ := routed_side r ri ndr p pr jr x h4 sr i hi
+      refine ⟨fun v => Gl v + Gr v, fun v => ?_, ?_⟩
+      · obtain ⟨pl', a1, a2⟩ := hGl v
+        obtain ⟨pr', b1, b2⟩ := hGr v
+        rw [M.val]
+        simp only [Option.bind_eq_bind, List.take_nil, List.drop_nil, e1, e2, a1, a2, b1, b2, Option.bind_some]
+      · have hJ := composite_jacobian p li ri jl jr ndl ndr i hi
+        rw [List.getD_eq_getElem?_getD, hJ]
+        exact hDl.add hDr
+  | .off name m, x, p, J, hc, hwf, hlen, hl, hj => by
+    simp only [M.countInv] at hc
+    obtain ⟨mi', hs1, hs2, hs3, hs4, hs5⟩ := subIdx_spec (M.off name m).params m.params
+      (by
+        intro n hn; simp only [M.params]
+        by_cases h : n = name
+        · subst h; exact List.mem_cons_self
+        · exact List.mem_cons_of_mem _ (List.mem_filter.mpr ⟨hn, by simp [h]⟩))
+      (M.params_nodup m (M.WF2.wf m hwf.1))
+    rw [offset_jacobian_unfold] at hj
+    simp only [Option.bind_eq_bind, Option.bind_eq_some_iff, hs1, Option.some.injEq, exists_eq_left'] at hj
+    obtain ⟨oi, h2, o, h3, pm, h4, jm, h5, dm, h6, h7⟩ := hj
+    obtain ⟨okj, okd⟩ := hl mi' oi o pm hs1 h2 h3 h4
+    have hoi : oi < p.length := hlen ▸ (indexOf_eq_some h2).1
+    have hnotin : oi ∉ mi' := by
+      intro hm
+      obtain ⟨n, hn, hni⟩ := hs5 oi hm
+      exact hwf.2 ((indexOf_inj hni h2) ▸ hn)
+    have sm := tree_jacobian_sound m (x - o) pm jm hc hwf.1 (by rw [pick_length mi' p pm h4, hs2]) okj h5
+    obtain ⟨Fm, hFm, hDm⟩ := tree_derivative_sound m (x - o) pm dm hc okd h6
+    subst h7
+    refine ⟨?_, fun i hi => ?_⟩
+    · obtain ⟨c, hc'⟩ := sm.1
+      refine ⟨c, ?_⟩
+      rw [M.val]
+      simp only [Option.bind_eq_bind, hs1, h2, h3, h4, hc', Option.bind_some]
+    · have hJ := offset_jacobian p mi' jm oi dm hs3 hoi i hi
+      rw [List.getD_eq_getElem?_getD, hJ]
+      by_cases hio : i = oi
+      · subst hio
+        refine ⟨fun v => Fm (x - v), fun v => ?_, ?_⟩
+        · rw [M.val]
+          simp only [Option.bind_eq_bind, hs1, h2, List.getElem?_set_self hoi, pick_set_not_mem mi' p i v hnotin, h4,
+            hFm (x - v), Option.bind_some]
+        · have : p.getD i 0 = o := by rw [List.getD_eq_getElem?_getD, h3]; rfl
+          rw [this, if_pos rfl]
+          exact (offset_chain_rule Fm dm x o hDm).1
+      · obtain ⟨G, hG, hD⟩ := routed_side m mi' hs3 p pm jm (x - o) h4 sm i hi
+        refine ⟨G, fun v => ?_, ?_⟩
+        · obtain ⟨pm', a1, a2⟩ := hG v
+          rw [M.val]
+          simp only [Option.bind_eq_bind, hs1, h2, List.getElem?_set_ne hio, h3, a1, a2, Option.bind_some]
+        · rw [if_neg hio]
+          exact hD
+  | .inv m, x, p, J, hc, _, _, _, _ => by
+    simp only [M.countInv] at hc
+    omega
+
+/-- the leaves meet `LeafJacOK` inside their validity ranges (closed forms, offsets, the four cubic models off the band) -/
+theorem leaf_jac_ok (names : List String) :
+    (∀ f Lp Lc St kT : ℝ, 0 < f → 0 < Lp → 0 < kT → 0 < St → LeafJacOK (.base .odijkD names) f [Lp, Lc, St, kT]) ∧
+    (∀ d Lp Lc kT : ℝ, 0 < Lp → 0 < Lc → d < Lc → LeafJacOK (.base .msF names) d [Lp, Lc, kT]) ∧
+    (∀ x o : ℝ, LeafJacOK (.base .offset names) x [o]) ∧
+    (∀ f Lp Lc St kT : ℝ, 0 < f → 0 < Lp → 0 < kT → 0 < St → f * (2 * Lp / kT) < 300 →
+      LeafJacOK (.base .efjcD names) f [Lp, Lc, St, kT]) := by
+  refine ⟨?_, ?_, ?_, ?_⟩
+  · intro f Lp Lc St kT h1 h2 h3 h4 J hJ
+    cases hJ
+    refine ⟨⟨_, rfl⟩, fun i hi => ?_⟩
+    have hr := odijk_distance_jac f Lp Lc St kT h1 h2 h3 h4
+    rcases i with _ | _ | _ | _ | i
+    · exact ⟨fun v => odijkDistance f v Lc St kT, fun _ => rfl, hr.2.1⟩
+    · exact ⟨fun v => odijkDistance f Lp v St kT, fun _ => rfl, hr.2.2.1⟩
+    · exact ⟨fun v => odijkDistance f Lp Lc v kT, fun _ => rfl, hr.2.2.2.1⟩
+    · exact ⟨fun v => odijkDistance f Lp Lc St v, fun _ => rfl, hr.2.2.2.2⟩
+    · simp only [List.length_cons, List.length_nil] at hi; omega
+  · intro d Lp Lc kT h1 h2 h3 J hJ
+    cases hJ
+    refine ⟨⟨_, rfl⟩, fun i hi => ?_⟩
+    have hr := ms_force_jac d Lp Lc kT h1 h2 h3
+    rcases i with _ | _ | _ | i
+    · exact ⟨fun v => msForce d v Lc kT, fun _ => rfl, hr.2.1⟩
+    · exact ⟨fun v => msForce d Lp v kT, fun _ => rfl, hr.2.2.1⟩
+    · exact ⟨fun v => msForce d Lp Lc v, fun _ => rfl, hr.2.2.2⟩
+    · simp only [List.length_cons, List.length_nil] at hi; omega
+  · intro x o J hJ
+    cases hJ
+    refine ⟨⟨_, rfl⟩, fun i hi => ?_⟩
+    rcases i with _ | i
+    · exact ⟨fun v => offsetVal x v, fun _ => rfl, offset_jac x o⟩
+    · simp only [List.length_cons, List.length_nil] at hi; omega
+  · intro f Lp Lc St kT h1 h2 h3 h4 h5 J hJ
+    cases hJ
+    refine ⟨⟨_, rfl⟩, fun i hi => ?_⟩
+    have hr := efjc_distance_jac f Lp Lc St kT h1 h2 h3 h4 h5
+    rcases i with _ | _ | _ | _ | i
+    · exact ⟨fun v => efjcDistance f v Lc St kT, fun _ => rfl, hr.2.1⟩
+    · exact ⟨fun v => efjcDistance f Lp v St kT, fun _ => rfl, hr.2.2.1⟩
+    · exact ⟨fun v => efjcDistance f Lp Lc v kT, fun _ => rfl, hr.2.2.2.1⟩
+    · exact ⟨fun v => efjcDistance f Lp Lc St v, fun _ => rfl, hr.2.2.2.2⟩
+    · simp only [List.length_cons, List.length_nil] at hi; omega
+
+/-- … and the four cubic models, both branches, off the band (through `X.jac_*_hasDerivAt`) -/
+theorem leaf_jac_ok_cubic (names : List String) :
+    (∀ d Lp Lc St kT : ℝ, 0 < Lp → 0 < Lc → 0 < St → 0 < kT →
+      cubDet (OF.a d Lp Lc St kT) (OF.b d Lp Lc St kT) (OF.c d Lp Lc St kT) ≠ 0 → regularised (OF.a d Lp Lc St kT) (OF.b d Lp Lc St kT) (OF.c d Lp Lc St kT) = false →
+      LeafJacOK (.base .odijkF names) d [Lp, Lc, St, kT]) ∧
+    (∀ f Lp Lc kT : ℝ, 0 < Lp → 0 < Lc → 0 < kT →
+      cubDet (WD.a f Lp Lc kT) (WD.b f Lp Lc kT) (WD.c f Lp Lc kT) ≠ 0 → regularised (WD.a f Lp Lc kT) (WD.b f Lp Lc kT) (WD.c f Lp Lc kT) = false →
+      LeafJacOK (.base .msD names) f [Lp, Lc, kT]) ∧
+    (∀ d Lp Lc St kT : ℝ, 0 < Lp → 0 < Lc → 0 < St → 0 < kT →
+      cubDet (EF.a d Lp Lc St kT) (EF.b d Lp Lc St kT) (EF.c d Lp Lc St kT) ≠ 0 → regularised (EF.a d Lp Lc St kT) (EF.b d Lp Lc St kT) (EF.c d Lp Lc St kT) = false →
+      LeafJacOK (.base .emsF names) d [Lp, Lc, St, kT]) ∧
+    (∀ f Lp Lc St kT : ℝ, 0 < Lp → 0 < Lc → 0 < St → 0 < kT →
+      cubDet (ED.a f Lp Lc St kT) (ED.b f Lp Lc St kT) (ED.c f Lp Lc St kT) ≠ 0 → regularised (ED.a f Lp Lc St kT) (ED.b f Lp Lc St kT) (ED.c f Lp Lc St kT) = false →
+      LeafJacOK (.base .emsD names) f [Lp, Lc, St, kT]) := by
+  refine ⟨?_, ?_, ?_, ?_⟩
+  · intro d Lp Lc St kT h1 h2 h3 h4 hd hr J hJ
+    cases hJ
+    refine ⟨⟨_, rfl⟩, fun i hi => ?_⟩
+    rcases i with _ | _ | _ | _ | i
+    · exact ⟨fun v => OF.val d v Lc St kT, fun _ => rfl, OF.jac_Lp_hasDerivAt d Lp Lc St kT h1 h2 h3 h4 hd hr⟩
+    · exact ⟨fun v => OF.val d Lp v St kT, fun _ => rfl, OF.jac_Lc_hasDerivAt d Lp Lc St kT h1 h2 h3 h4 hd hr⟩
+    · exact ⟨fun v => OF.val d Lp Lc v kT, fun _ => rfl, OF.jac_St_hasDerivAt d Lp Lc St kT h1 h2 h3 h4 hd hr⟩
+    · exact ⟨fun v => OF.val d Lp Lc St v, fun _ => rfl, OF.jac_kT_hasDerivAt d Lp Lc St kT h1 h2 h3 h4 hd hr⟩
+    · simp only [List.length_cons, List.length_nil] at hi; omega
+  · intro f Lp Lc kT h1 h2 h3 hd hr J hJ
+    cases hJ
+    refine ⟨⟨_, rfl⟩, fun i hi => ?_⟩
+    rcases i with _ | _ | _ | i
+    · exact ⟨fun v => WD.val f v Lc kT, fun _ => rfl, WD.jac_Lp_hasDerivAt f Lp Lc kT h1 h2 h3 hd hr⟩
+    · exact ⟨fun v => WD.val f Lp v kT, fun _ => rfl, WD.jac_Lc_hasDerivAt f Lp Lc kT h1 h2 h3 hd hr⟩
+    · exact ⟨fun v => WD.val f Lp Lc v, fun _ => rfl, WD.jac_kT_hasDerivAt f Lp Lc kT h1 h2 h3 hd hr⟩
+    · simp only [List.length_cons, List.length_nil] at hi; omega
+  · intro d Lp Lc St kT h1 h2 h3 h4 hd hr J hJ
+    cases hJ
+    refine ⟨⟨_, rfl⟩, fun i hi => ?_⟩
+    rcases i with _ | _ | _ | _ | i
+    · exact ⟨fun v => EF.val d v Lc St kT, fun _ => rfl, EF.jac_Lp_hasDerivAt d Lp Lc St kT h1 h2 h3 h4 hd hr⟩
+    · exact ⟨fun v => EF.val d Lp v St kT, fun _ => rfl, EF.jac_Lc_hasDerivAt d Lp Lc St kT h1 h2 h3 h4 hd hr⟩
+    · exact ⟨fun v => EF.val d Lp Lc v kT, fun _ => rfl, EF.jac_St_hasDerivAt d Lp Lc St kT h1 h2 h3 h4 hd hr⟩
+    · exact ⟨fun v => EF.val d Lp Lc St v, fun _ => rfl, EF.jac_kT_hasDerivAt d Lp Lc St kT h1 h2 h3 h4 hd hr⟩
+    · simp only [List.length_cons, List.length_nil] at hi; omega
+  · intro f Lp Lc St kT h1 h2 h3 h4 hd hr J hJ
+    cases hJ
+    refine ⟨⟨_, rfl⟩, fun i hi => ?_⟩
+    rcases i with _ | _ | _ | _ | i
+    · exact ⟨fun v => ED.val f v Lc St kT, fun _ => rfl, ED.jac_Lp_hasDerivAt f Lp Lc St kT h1 h2 h3 h4 hd hr⟩
+    · exact ⟨fun v => ED.val f Lp v St kT, fun _ => rfl, ED.jac_Lc_hasDerivAt f Lp Lc St kT h1 h2 h3 h4 hd hr⟩
+    · exact ⟨fun v => ED.val f Lp Lc v kT, fun _ => rfl, ED.jac_St_hasDerivAt f Lp Lc St kT h1 h2 h3 h4 hd hr⟩
+    · exact ⟨fun v => ED.val f Lp Lc St v, fun _ => rfl, ED.jac_kT_hasDerivAt f Lp Lc St kT h1 h2 h3 h4 hd hr⟩
+    · simp only [List.length_cons, List.length_nil] at hi; omega
+
+/-- non-vacuity of `tree_jacobian_sound` (and once more of `tree_derivative_sound`):
+    `(odijk + distance offset).subtract_independent_offset()` at the defaults meets every hypothesis -/
+theorem demo_tree_hypotheses :
+    let m := M.off "m/f_offset" (M.add (M.base .odijkD ["m/Lp", "m/Lc", "m/St", "kT"]) (M.base .offset ["m/d_offset"]))
+    let p : List ℝ := [0.5, 40, 16, 1500, 4.11, 0.01]
+    m.countInv = 0 ∧ m.WF2 ∧ p.length = m.params.length ∧ LeafJacOK m 10 p ∧ LeafDerOK m 10 p := by
+  intro m p
+  have key : ∀ (P : M → ℝ → List ℝ → Prop),
+      P (M.base .odijkD ["m/Lp", "m/Lc", "m/St", "kT"]) (10 - 0.5) [40, 16, 1500, 4.11] →
+      P (M.base .offset ["m/d_offset"]) (10 - 0.5) [0.01] →
+      ∀ mi oi o pm, subIdx m.params (M.add (M.base .odijkD ["m/Lp", "m/Lc", "m/St", "kT"]) (M.base .offset ["m/d_offset"])).params = some mi →
+        indexOf m.params "m/f_offset" = some oi → p[oi]? = some o → pick mi p = some pm →
+        ∀ li ri pl pr, subIdx (M.add (M.base .odijkD ["m/Lp", "m/Lc", "m/St", "kT"]) (M.base .offset ["m/d_offset"])).params
+            (M.base .odijkD ["m/Lp", "m/Lc", "m/St", "kT"]).params = some li →
+          subIdx (M.add (M.base .odijkD ["m/Lp", "m/Lc", "m/St", "kT"]) (M.base .offset ["m/d_offset"])).params
+            (M.base .offset ["m/d_offset"]).params = some ri → pick li pm = some pl → pick ri pm = some pr →
+          P (M.base .odijkD ["m/Lp", "m/Lc", "m/St", "kT"]) (10 - o) pl ∧ P (M.base .offset ["m/d_offset"]) (10 - o) pr := by
+    intro P hP1 hP2 mi oi o pm h1 h2 h3 h4 li ri pl pr g1 g2 g3 g4
+    have e1 : mi = [1, 2, 3, 4, 5] := by
+      have : subIdx m.params (M.add (M.base .odijkD ["m/Lp", "m/Lc", "m/St", "kT"]) (M.base .offset ["m/d_offset"])).params
+          = some [1, 2, 3, 4, 5] := by decide
+      rw [this] at h1; exact (Option.some.inj h1).symm
+    have e2 : oi = 0 := by
+      have : indexOf m.params "m/f_offset" = some 0 := by decide
+      rw [this] at h2; exact (Option.some.inj h2).symm
+    subst e1 e2
+    have e3 : o = 0.5 := by simpa [p] using h3.symm
+    have e4 : pm = [40, 16, 1500, 4.11, 0.01] := by
+      simp [pick, p] at h4; exact h4.symm
+    subst e3 e4
+    have f1 : li = [0, 1, 2, 3] := by
+      have : subIdx (M.add (M.base .odijkD ["m/Lp", "m/Lc", "m/St", "kT"]) (M.base .offset ["m/d_offset"])).params
+          (M.base .odijkD ["m/Lp", "m/Lc", "m/St", "kT"]).params = some [0, 1, 2, 3] := by decide
+      rw [this] at g1; exact (Option.some.inj g1).symm
+    have f2 : ri = [4] := by
+      have : subIdx (M.add (M.base .odijkD ["m/Lp", "m/Lc", "m/St", "kT"]) (M.base .offset ["m/d_offset"])).params
+          (M.base .offset ["m/d_offset"]).params = some [4] := by decide
+      rw [this] at g2; exact (Option.some.inj g2).symm
+    subst f1 f2
+    have f3 : pl = [40, 16, 1500, 4.11] := by simp [pick] at g3; exact g3.symm
+    have f4 : pr = [0.01] := by simp [pick] at g4; exact g4.symm
+    subst f3 f4
+    exact ⟨hP1, hP2⟩
+  have hD1 := (leaf_der_ok ["m/Lp", "m/Lc", "m/St", "kT"]).1 (10 - 0.5) 40 16 1500 4.11 (by norm_num) (by norm_num) (by norm_num) (by norm_num)
+  have hD2 := (leaf_der_ok ["m/d_offset"]).2.2.1 (10 - 0.5) 0.01
+  have hJ1 := (leaf_jac_ok ["m/Lp", "m/Lc", "m/St", "kT"]).1 (10 - 0.5) 40 16 1500 4.11 (by norm_num) (by norm_num) (by norm_num) (by norm_num)
+  have hJ2 := (leaf_jac_ok ["m/d_offset"]).2.2.1 (10 - 0.5) 0.01
+  refine ⟨rfl, ?_, rfl, ?_, ?_⟩
+  · refine ⟨⟨?_, ?_⟩, ?_⟩
+    · show ["m/Lp", "m/Lc", "m/St", "kT"].Nodup; decide
+    · show ["m/d_offset"].Nodup; decide
+    · decide
+  · intro mi oi o pm h1 h2 h3 h4
+    exact ⟨fun li ri pl pr g1 g2 g3 g4 => key LeafJacOK hJ1 hJ2 mi oi o pm h1 h2 h3 h4 li ri pl pr g1 g2 g3 g4,
+      fun li ri pl pr g1 g2 g3 g4 => key LeafDerOK hD1 hD2 mi oi o pm h1 h2 h3 h4 li ri pl pr g1 g2 g3 g4⟩
+  · intro mi oi o pm h1 h2 h3 h4 li ri pl pr g1 g2 g3 g4
+    exact key LeafDerOK hD1 hD2 mi oi o pm h1 h2 h3 h4 li ri pl pr g1 g2 g3 g4
+
+/-! ## Deepening round D: one numerical inversion on top of an inversion-free composition -/
+
+section inverted
+open Filter Topology
+
+/-- `InverseModel.derivative` on top of any inversion-free composition (`invert()`, and `efjc_force` / `twlc_force`,
+    which are the inversions of `efjc_distance` / `twlc_distance`): if the value the numerical inversion returns is, as a
+    function `g` of the abscissa, continuous and an exact right inverse of the inner model function near `x`
+    (the idealised inversion), then what `M.der` of the inverted model returns — `1 / f'(g x)` with `f'` the inner
+    composition's own analytic derivative — IS the derivative of `g`. -/
+theorem inverted_tree_derivative_sound (m : M) (x : ℝ) (p : List ℝ) (g : ℝ → ℝ) (d : ℝ) (hc : m.countInv = 0)
+    (hl : LeafDerOK m (g x) p) (hg : ContinuousAt g x) (hinv : ∀ᶠ z in 𝓝 x, m.val (g z) p [] = some z)
+    (hd : (M.inv m).der x p [g x] = some d) (hne : m.der (g x) p [] ≠ some 0) :
+    HasDerivAt g d x := by
+  rw [M.der] at hd
+  simp only [Option.bind_eq_bind, Option.bind_eq_some_iff, Option.some.injEq] at hd
+  obtain ⟨d', h1, h2⟩ := hd
+  obtain ⟨F, hF, hD⟩ := tree_derivative_sound m (g x) p d' hc hl h1
+  have hd0 : d' ≠ 0 := by
+    intro h0; apply hne; rw [h1, h0]
+  have hfg : ∀ᶠ z in 𝓝 x, F (g z) = z := by
+    filter_upwards [hinv] with z hz
+    rw [hF (g z)] at hz
+    exact Option.some.inj hz
+  rw [← h2]
+  exact inverse_derivative_rule F g d' x hg hD hd0 hfg
+
+/-- non-vacuity of the model-side hypotheses (`ewlc_odijk_distance(…).invert()` at `F = 10`: the leaf is fine, the inner
+    derivative is positive); the analytic hypotheses about `g` are those of `inverse_derivative_rule`, whose example
+    exhibits such a `g` -/
+theorem demo_inverted : ∃ (m : M) (x : ℝ) (p : List ℝ) (g : ℝ → ℝ), m.countInv = 0 ∧ LeafDerOK m (g x) p ∧
+    m.der (g x) p [] ≠ some 0 := by
+  refine ⟨M.base .odijkD ["m/Lp", "m/Lc", "m/St", "kT"], 14, [40, 16, 1500, 4.11], fun _ => 10, rfl,
+    (leaf_der_ok _).1 10 40 16 1500 4.11 (by norm_num) (by norm_num) (by norm_num) (by norm_num), ?_⟩
+  intro h
+  rw [M.der] at h
+  have h' := Option.some.inj h
+  simp only [odijkDistanceDeriv, RealLike.sqrt] at h'
+  have hs : 0 < Real.sqrt (4.11 * (1.0 / 10) / 40) := Real.sqrt_pos.mpr (by norm_num)
+  have : (0:ℝ) < 16 * (0.25 * (1.0 / 10) * Real.sqrt (4.11 * (1.0 / 10) / 40) + 1.0 / 1500) := by positivity
+  linarith
+end inverted
 
 end Verif.C13
